@@ -5,8 +5,9 @@ import ast
 import itertools
 
 from ..core import Ctx
-from ..match import Fact, _atoms_with_polarity, call_name, calls, fact_of, local_defs, names_in, resolve
-from ..model import AnalysisError, FuncInfo, chain, const_value, enclosing_stmt, norm, strip_cast, walk_no_nested
+from ..localnames import load_table
+from ..match import Fact, _atoms_with_polarity, call_name, calls, fact_of, facts_at, local_defs, names_in, resolve, single_def
+from ..model import AnalysisError, FuncInfo, chain, clone, const_value, enclosing_stmt, head, norm, parent, set_parents, strip_cast, walk_no_nested
 from ..poly import Poly, eval_expr
 
 LEVEL = "proof"
@@ -22,9 +23,18 @@ EXPLANATION = (
     "table to be 'normalised quotient has numerator == denominator'; codec arity and integer layout of keys/attestations "
     "are checked on the flattened byte concatenations and slice offsets (as polynomials). Structural necessary conditions "
     "of the protocol clauses: the range verifier checks every Peng-Bao verification equation (as exponent vectors over the "
-    "commitments), a challenge response is consumed together with its pending-challenge entry, the range certainty needs a "
-    "verified response, an attestation is matched to the request it echoes. Soundness/completeness of the zero-knowledge "
-    "proofs and the Boneh scheme rest on number theory over run-time keys and randomness and are NOT decided."
+    "commitments, on every accepting return path, decision helpers and generator helpers followed), a challenge response is "
+    "consumed together with its pending-challenge entry and the challenge dropped from the backlog is the one selected by the "
+    "answered hash (both also when the pop / removal / processing lives in a new helper or behind a dispatch table: the call "
+    "is followed with parameters bound to the caller's expressions and the facts that dominate the call), an attestation is "
+    "matched to the request whose global time it echoes (guard, filter, generator or direct key). Two small folds are decided "
+    "by finite-model interpretation of their syntax trees (no code of the repository is run; the interpreter walks the trees "
+    "on dict/bytes/int model values and follows helpers): the range certainty is 1 exactly when at least one response was "
+    "recorded and none failed (all aggregates with 0..3 responses), and every decoded answer 0..3 is counted once in its own "
+    "bucket. Where the symbolic reading does not recognise how a codec / field method is written, the same interpreter decides "
+    "the question on model values (round trips of keys, bit-pairs and integers of every size class; operators, inverse, "
+    "normalize, intpow, _modinv, equality against reference arithmetic in F_p[x]/(x^2+x+1)). Soundness/completeness of the "
+    "zero-knowledge proofs and the Boneh scheme rest on number theory over run-time keys and randomness and are NOT decided."
 )
 
 VP = "ipv8/attestation/wallet/primitives/value.py"
@@ -108,6 +118,8 @@ def _subst(n, env: dict, shadow: frozenset = frozenset()):
     for f in n._fields:
         if hasattr(n, f):
             setattr(new, f, _subst(getattr(n, f), env, shadow))
+    if getattr(n, "_c18_nofollow", False):
+        new._c18_nofollow = True
     return new
 
 
@@ -127,6 +139,8 @@ def _replace(e, target, repl):
     for f in e._fields:
         if hasattr(e, f):
             setattr(new, f, _replace(getattr(e, f), target, repl))
+    if getattr(e, "_c18_nofollow", False):
+        new._c18_nofollow = True
     return new
 
 
@@ -161,6 +175,46 @@ def _known(conds) -> dict:
     return {_fkey(f): f.pos for f in _facts(conds)}
 
 
+def _const_test(test: ast.AST):
+    """Truth of a comparison between constants (a flag parameter of a merged helper bound to a literal): True / False, None if not constant."""
+    if not (isinstance(test, ast.Compare) and len(test.ops) == 1):
+        return None
+
+    def val(e):
+        c = _int_const(e)
+        if c is not None:
+            return ("v", c)
+        if isinstance(e, ast.Constant) and isinstance(e.value, (str, bytes, bool, type(None))):
+            return ("v", e.value)
+        if isinstance(e, (ast.Tuple, ast.List, ast.Set)):
+            items = [val(x) for x in e.elts]
+            if all(i is not None for i in items):
+                return ("v", tuple(i[1] for i in items))
+        return None
+    le, ri = val(test.left), val(test.comparators[0])
+    if le is None or ri is None:
+        return None
+    op = test.ops[0]
+    try:
+        if isinstance(op, (ast.In, ast.NotIn)):
+            if not isinstance(ri[1], tuple):
+                return None
+            r = any(type(x) is type(le[1]) and x == le[1] for x in ri[1])
+            return r if isinstance(op, ast.In) else not r
+        if isinstance(op, (ast.Is, ast.IsNot)):
+            if le[1] is None or ri[1] is None:
+                r = le[1] is None and ri[1] is None
+                return r if isinstance(op, ast.Is) else not r
+            return None
+        if isinstance(le[1], tuple) or isinstance(ri[1], tuple) or type(le[1]) is not type(ri[1]):
+            return None
+        fn = {ast.Eq: lambda a, b: a == b, ast.NotEq: lambda a, b: a != b, ast.Lt: lambda a, b: a < b, ast.LtE: lambda a, b: a <= b,
+              ast.Gt: lambda a, b: a > b, ast.GtE: lambda a, b: a >= b}.get(type(op))
+        return None if fn is None else bool(fn(le[1], ri[1]))
+    except TypeError:
+        return None
+
+
 def _decide(test: ast.AST, known: dict):
     """Three-valued truth of `test` given the atoms known on this path (None = not decided)."""
     if isinstance(test, ast.Constant):
@@ -180,6 +234,9 @@ def _decide(test: ast.AST, known: dict):
             vals.append(_decide(ast.Compare(left=left, ops=[op], comparators=[right]), known))
             left = right
         return False if any(v is False for v in vals) else True if all(v is True for v in vals) else None
+    cv = _const_test(test)
+    if cv is not None:
+        return cv
     f = fact_of(test, True)
     k = _fkey(f)
     if k in known:
@@ -190,14 +247,15 @@ def _decide(test: ast.AST, known: dict):
 
 
 class _St:
-    __slots__ = ("env", "conds")
+    __slots__ = ("env", "conds", "yields")
 
-    def __init__(self, env=None, conds=None) -> None:
+    def __init__(self, env=None, conds=None, yields=None) -> None:
         self.env: dict[str, ast.AST] = dict(env or {})
         self.conds: list[tuple[ast.AST, bool]] = list(conds or [])
+        self.yields: list[ast.AST] = list(yields or [])
 
     def fork(self, cond=None) -> "_St":
-        s = _St(self.env, self.conds)
+        s = _St(self.env, self.conds, self.yields)
         if cond is not None:
             s.conds.append(cond)
         return s
@@ -243,15 +301,87 @@ def _written_names(stmts) -> set[str]:
 class _Exec:
     """run() -> [(state, returned expression)] for every path that returns (falling off the end returns None)."""
 
-    def __init__(self, fi: FuncInfo, loop_hook=None) -> None:
+    def __init__(self, fi: FuncInfo, loop_hook=None, recv=None, init_env: dict | None = None, depth: int = 0) -> None:
         self.fi = fi
         self.loop_hook = loop_hook
+        self.recv = recv if recv is not None else fi.cls          # the class `self` / `cls` is an instance of (for helper lookup)
+        self.init_env = init_env or {}
+        self.depth = depth
+        self.is_gen = any(isinstance(x, (ast.Yield, ast.YieldFrom)) for x in walk_no_nested(fi.node))
         self.done: list[tuple[_St, ast.AST]] = []
 
     def run(self):
-        for st in self._block(self.fi.node.body, _St()):
+        for st in self._block(self.fi.node.body, _St(self.init_env)):
             self.done.append((st, ast.Constant(value=None)))
+        if self.is_gen:
+            # a generator helper made of plain `yield E` statements denotes the sequence of the yielded expressions
+            return [(st, ast.Tuple(elts=list(st.yields), ctx=ast.Load())) for st, _ in self.done]
         return self.done
+
+    # ---- calls to NEW helpers are executed too (parameters bound to the argument expressions)
+    def _helper_target(self, call: ast.Call):
+        if _CTX is None or getattr(call, "_c18_nofollow", False) or self.depth >= 4:
+            return None
+        repo, f = _CTX.repo, call.func
+        t = recv_expr = None
+        try:
+            if isinstance(f, ast.Name):
+                r = repo.resolve_name(self.fi.module, f.id)
+                t = r if isinstance(r, FuncInfo) else None
+            elif isinstance(f, ast.Attribute):
+                if isinstance(f.value, ast.Name) and f.value.id in ("self", "cls") and self.recv is not None:
+                    t, recv_expr = self.recv.lookup(f.attr), f.value
+                elif isinstance(f.value, ast.Name) and f.value.id in ("other",) and self.recv is not None:
+                    t, recv_expr = self.recv.lookup(f.attr), f.value
+                else:
+                    c = repo.resolve_class_expr(self.fi.module, f.value)
+                    if c is not None:
+                        t = c.lookup(f.attr)
+        except Exception:  # noqa: BLE001
+            t = None
+        if t is None or not _is_new(t) or t.node is self.fi.node:
+            return None
+        a = t.node.args
+        if a.vararg or a.kwarg or any(isinstance(x, ast.Starred) for x in call.args) or any(k.arg is None for k in call.keywords):
+            return None
+        names = [x.arg for x in a.posonlyargs + a.args]
+        env: dict[str, ast.AST] = {}
+        idx = 0
+        if t.cls is not None and "staticmethod" not in t.decorator_names() and names:
+            if recv_expr is not None and not (isinstance(recv_expr, ast.Name) and recv_expr.id == names[0]):
+                env[names[0]] = recv_expr
+            idx = 1
+        for x in call.args:
+            if idx >= len(names):
+                return None
+            env[names[idx]] = x
+            idx += 1
+        allowed = set(names) | {x.arg for x in a.kwonlyargs}
+        for k in call.keywords:
+            if k.arg not in allowed:
+                return None
+            env[k.arg] = k.value
+        defaults = dict(zip(names[len(names) - len(a.defaults):], a.defaults))
+        defaults.update({k.arg: d for k, d in zip(a.kwonlyargs, a.kw_defaults) if d is not None})
+        for nme in list(names[idx:]) + [x.arg for x in a.kwonlyargs]:
+            if nme not in env:
+                if nme not in defaults:
+                    return None
+                env[nme] = defaults[nme]
+        return t, env
+
+    def _first_helper_call(self, e: ast.AST):
+        stack = [e]
+        while stack:
+            n = stack.pop(0)
+            if isinstance(n, ast.Lambda):
+                continue
+            if isinstance(n, ast.Call):
+                got = self._helper_target(n)
+                if got is not None:
+                    return n, got[0], got[1]
+            stack.extend(ast.iter_child_nodes(n))
+        return None
 
     def _block(self, stmts, st: _St) -> list[_St]:
         cur = [st]
@@ -265,6 +395,21 @@ class _Exec:
         return cur
 
     def _expand(self, e: ast.AST, st: _St):
+        hc = self._first_helper_call(e) if _CTX is not None else None
+        if hc is not None:
+            call, target, env = hc
+            try:
+                sub = _Exec(target, None, self.recv if target.cls is not None else None, env, self.depth + 1).run()
+            except AnalysisError:
+                sub = None
+            if sub is not None and 0 < len(sub) <= 8:
+                out = []
+                for hst, ret in sub:
+                    st2 = st.fork()
+                    st2.conds.extend(hst.conds)
+                    out.extend(self._expand(_replace(e, call, ret), st2))
+                return out
+            call._c18_nofollow = True
         ife = _first_ifexp(e)
         if ife is None:
             return [(e, st)]
@@ -289,6 +434,13 @@ class _Exec:
                     self._bind(e, ast.Subscript(value=value, slice=ast.Constant(value=i), ctx=ast.Load()), st)
         elif isinstance(t, ast.Attribute) and chain(t) is not None:
             st.env["@" + chain(t)] = value
+        elif isinstance(t, ast.Subscript) and isinstance(t.value, ast.Name) and t.value.id in st.env and _int_const(_simp(_subst(t.slice, st.env))) is not None \
+                and _literal_elements(_simp(st.env[t.value.id])) is not None \
+                and -len(_literal_elements(_simp(st.env[t.value.id]))) <= _int_const(_simp(_subst(t.slice, st.env))) < len(_literal_elements(_simp(st.env[t.value.id]))) \
+                and isinstance(st.env[t.value.id], (ast.List, ast.ListComp)):
+            elts = list(_literal_elements(_simp(st.env[t.value.id])))          # xs[3] = v on a list whose elements are known
+            elts[_int_const(_simp(_subst(t.slice, st.env)))] = value
+            st.set(t.value.id, ast.List(elts=elts, ctx=ast.Load()))
         else:
             b = t
             while isinstance(b, (ast.Attribute, ast.Subscript)):
@@ -300,6 +452,20 @@ class _Exec:
         if isinstance(s, (ast.Pass, ast.Import, ast.ImportFrom, ast.FunctionDef, ast.AsyncFunctionDef, ast.ClassDef, ast.Global, ast.Nonlocal)):
             return [st]
         if isinstance(s, ast.Expr):
+            if isinstance(s.value, ast.Yield):
+                out = []
+                val = _subst(s.value.value, st.env) if s.value.value is not None else ast.Constant(value=None)
+                for v, st2 in self._expand(val, st):
+                    st3 = st2.fork() if st2 is st else st2
+                    st3.yields.append(v)
+                    out.append(st3)
+                return out
+            if isinstance(s.value, ast.YieldFrom):
+                elts = _literal_elements(_simp(_subst(s.value.value, st.env)))
+                if elts is None:
+                    raise AnalysisError(f"undecided: {self.fi.qualname}: `{norm(s)[:60]}` delegates to an iterable that is not a literal sequence")
+                st.yields.extend(elts)
+                return [st]
             if isinstance(s.value, ast.Call):
                 for n in _written_names([s]):
                     st.havoc(n)
@@ -339,15 +505,32 @@ class _Exec:
             v = _decide(test, _known(st.conds))
             return [] if v is False else [st if v is True else st.fork((test, True))]
         if isinstance(s, ast.If):
-            test = _subst(s.test, st.env)
-            v = _decide(test, _known(st.conds))
+            test0 = _subst(s.test, st.env)
+            # decision helpers in the test are executed (each of their return paths is one way the test comes out)
+            tests = self._expand(test0, st) if self._first_helper_call(test0) is not None else [(test0, st)]
             out = []
-            if v is not False:
-                out.extend(self._block(s.body, st.fork(None if v is True else (test, True))))
-            if v is not True:
-                out.extend(self._block(s.orelse, st.fork(None if v is False else (test, False))))
+            for test, st1 in tests:
+                v = _decide(test, _known(st1.conds))
+                if v is not False:
+                    out.extend(self._block(s.body, st1.fork(None if v is True else (test, True))))
+                if v is not True:
+                    out.extend(self._block(s.orelse, st1.fork(None if v is False else (test, False))))
             return out
         if isinstance(s, (ast.While, ast.For)):
+            if any(isinstance(x, (ast.Yield, ast.YieldFrom, ast.Return)) for x in ast.walk(s)):
+                # a loop that can leave the function / produce values cannot be summarised by "its variables change"
+                lit = _literal_elements(_simp(_subst(s.iter, st.env))) if isinstance(s, ast.For) and not s.orelse else None
+                if lit is None or len(lit) > 32 or any(isinstance(x, (ast.Break, ast.Continue)) for x in ast.walk(s)):
+                    raise AnalysisError(f"undecided: {self.fi.qualname}: return / yield inside `{head(s)[:50]}`")
+                cur = [st]
+                for item in lit:                                  # a loop over a literal sequence is unrolled
+                    nxt = []
+                    for x in cur:
+                        x2 = x.fork()
+                        self._bind(s.target, item, x2)
+                        nxt.extend(self._block(s.body, x2))
+                    cur = nxt
+                return cur
             if self.loop_hook is not None:
                 r = self.loop_hook(self, s, st)
                 if r is not None:
@@ -380,7 +563,72 @@ def _simp(n):
         elts = _literal_elements(new.value)
         if elts is not None and -len(elts) <= new.slice.value < len(elts):
             return elts[new.slice.value]
+    if isinstance(new, ast.Call) and isinstance(new.func, ast.Lambda) and not new.keywords and not any(isinstance(a, ast.Starred) for a in new.args):
+        la = new.func.args                                   # (lambda x: E)(v) is E[x := v]
+        names = [x.arg for x in la.posonlyargs + la.args]
+        if not (la.vararg or la.kwarg or la.kwonlyargs or la.defaults) and len(names) == len(new.args):
+            return _simp(_subst(new.func.body, dict(zip(names, new.args))))
+    if isinstance(new, ast.Call) and isinstance(new.func, ast.Name) and new.func.id == "getattr" and len(new.args) == 2 and not new.keywords \
+            and isinstance(new.args[1], ast.Constant) and isinstance(new.args[1].value, str) and new.args[1].value.isidentifier():
+        return ast.Attribute(value=new.args[0], attr=new.args[1].value, ctx=ast.Load())      # getattr(self, "a") is self.a
+    if isinstance(new, ast.BinOp) and isinstance(new.op, (ast.Add, ast.Sub, ast.Mult)):
+        le, ri = _int_const(new.left), _int_const(new.right)
+        if le is not None and ri is not None:                    # index arithmetic on constants: nums[i + 1] for i = 2
+            v = le + ri if isinstance(new.op, ast.Add) else le - ri if isinstance(new.op, ast.Sub) else le * ri
+            return ast.Constant(value=v)
     return new
+
+
+def _dict_items(e: ast.AST):
+    """[(key, value expression)] of a dict display / a dict comprehension over a literal sequence with constant string keys; None otherwise."""
+    if isinstance(e, ast.Dict):
+        out = []
+        for k, v in zip(e.keys, e.values):
+            if k is None:
+                sub = _dict_items(v)
+                if sub is None:
+                    return None
+                out.extend(sub)
+            elif isinstance(k, ast.Constant) and isinstance(k.value, str):
+                out.append((k.value, _simp(v)))
+            else:
+                return None
+        return out
+    if isinstance(e, ast.DictComp) and len(e.generators) == 1:
+        g = e.generators[0]
+        src = _literal_elements(g.iter)
+        if src is None or g.ifs or g.is_async:
+            return None
+        out = []
+        for x in src:
+            if isinstance(g.target, ast.Name):
+                env = {g.target.id: x}
+            elif isinstance(g.target, (ast.Tuple, ast.List)) and isinstance(x, (ast.Tuple, ast.List)) and len(x.elts) == len(g.target.elts) \
+                    and all(isinstance(t, ast.Name) for t in g.target.elts):
+                env = {t.id: v for t, v in zip(g.target.elts, x.elts)}
+            else:
+                return None
+            k = _simp(_subst(e.key, env))
+            if not (isinstance(k, ast.Constant) and isinstance(k.value, str)):
+                return None
+            out.append((k.value, _simp(_subst(e.value, env))))
+        return out
+    if isinstance(e, ast.Call) and isinstance(e.func, ast.Name) and e.func.id == "dict" and not e.args and all(k.arg is not None for k in e.keywords):
+        return [(k.arg, _simp(k.value)) for k in e.keywords]
+    if isinstance(e, ast.Call) and isinstance(e.func, ast.Name) and e.func.id == "dict" and len(e.args) == 1 and not e.keywords:
+        pairs = _literal_elements(e.args[0])
+        if pairs is not None and all(isinstance(x, (ast.Tuple, ast.List)) and len(x.elts) == 2 and isinstance(_simp(x.elts[0]), ast.Constant) for x in pairs):
+            return [(_simp(x.elts[0]).value, _simp(x.elts[1])) for x in pairs]
+    return None
+
+
+def _int_const(e: ast.AST):
+    if isinstance(e, ast.Constant) and isinstance(e.value, int) and not isinstance(e.value, bool):
+        return e.value
+    if isinstance(e, ast.UnaryOp) and isinstance(e.op, ast.USub) and isinstance(e.operand, ast.Constant) and isinstance(e.operand.value, int) \
+            and not isinstance(e.operand.value, bool):
+        return -e.operand.value
+    return None
 
 
 def _literal_elements(e: ast.AST):
@@ -392,8 +640,39 @@ def _literal_elements(e: ast.AST):
         src = _literal_elements(g.iter)
         if src is not None and not g.ifs and not g.is_async and isinstance(g.target, ast.Name):
             return [_simp(_subst(e.elt, {g.target.id: x})) for x in src]
+        if src is not None and not g.ifs and not g.is_async and isinstance(g.target, (ast.Tuple, ast.List)) \
+                and all(isinstance(t, ast.Name) for t in g.target.elts):
+            out = []
+            for x in src:                                        # for i, j in ((0, 1), (2, 3), (4, 5))
+                if not (isinstance(x, (ast.Tuple, ast.List)) and len(x.elts) == len(g.target.elts)):
+                    return None
+                out.append(_simp(_subst(e.elt, {t.id: v for t, v in zip(g.target.elts, x.elts)})))
+            return out
     if isinstance(e, ast.Call) and isinstance(e.func, ast.Name) and e.func.id in ("list", "tuple") and len(e.args) == 1 and not e.keywords:
         return _literal_elements(e.args[0])
+    if isinstance(e, ast.BinOp) and isinstance(e.op, ast.Add):
+        le, ri = _literal_elements(e.left), _literal_elements(e.right)        # (a, b) + (c, d)
+        if le is not None and ri is not None:
+            return le + ri
+    if isinstance(e, ast.Call) and isinstance(e.func, ast.Name) and e.func.id == "map" and len(e.args) == 2 and not e.keywords \
+            and isinstance(e.args[0], (ast.Name, ast.Attribute)):
+        src = _literal_elements(e.args[1])                                    # map(f, (x, y)) -> f(x), f(y)
+        if src is not None:
+            return [ast.Call(func=e.args[0], args=[x], keywords=[]) for x in src]
+    if isinstance(e, ast.Call) and isinstance(e.func, ast.Name) and e.func.id == "zip" and e.args and not e.keywords:
+        cols = [_literal_elements(a) for a in e.args]
+        if all(c is not None for c in cols):
+            return [ast.Tuple(elts=list(row), ctx=ast.Load()) for row in zip(*cols)]
+    if isinstance(e, ast.Call) and isinstance(e.func, ast.Name) and e.func.id == "enumerate" and len(e.args) == 1 and not e.keywords:
+        col = _literal_elements(e.args[0])
+        if col is not None:
+            return [ast.Tuple(elts=[ast.Constant(value=i), x], ctx=ast.Load()) for i, x in enumerate(col)]
+    if isinstance(e, ast.Call) and isinstance(e.func, ast.Name) and e.func.id == "range" and 1 <= len(e.args) <= 3 and not e.keywords:
+        bounds = [_int_const(_simp(a)) for a in e.args]
+        if all(b is not None for b in bounds) and (len(bounds) < 3 or bounds[2] != 0):
+            r = range(*bounds)
+            if len(r) <= 64:
+                return [ast.Constant(value=i) for i in r]
     return None
 
 
@@ -444,19 +723,30 @@ def _describe(conds) -> str:
 # ring laws
 # ------------------------------------------------------------------------------------------------------------------
 def _fp2_coeffs(fi: FuncInfo, call: ast.AST, symbol_of, *, ignore_mod: str | None = None, moduli=("self.mod",)) -> dict[str, Poly]:
-    if not (isinstance(call, ast.Call) and chain(call.func) == "FP2Value" and call.args):
+    if not (isinstance(call, ast.Call) and (chain(call.func) in ("FP2Value", "self.__class__", "other.__class__") or norm(call.func) in ("type(self)", "type(other)"))
+            and call.args):
         raise AnalysisError(f"{fi.qualname}: returns `{norm(call)[:60]}`, not `FP2Value(...)`")
     if norm(call.args[0]) not in moduli:
         raise AnalysisError(f"{fi.qualname}: result modulus is not self.mod")
-    if any(isinstance(a, ast.Starred) for a in call.args) or len(call.args) > 7:
-        raise AnalysisError(f"{fi.qualname}: unsupported constructor call `{norm(call)[:60]}`")
+    pos = _star_args(call) if any(isinstance(a, ast.Starred) for a in call.args) else list(call.args)
+    if pos is None or len(pos) > 7:
+        raise AnalysisError(f"undecided: {fi.qualname}: unsupported constructor call `{norm(call)[:60]}`")
     out = {k: Poly.const(v) for k, v in DEFAULTS.items()}
-    for i, a in enumerate(call.args[1:]):
+    for i, a in enumerate(pos[1:]):
         out[SYMS[i]] = eval_expr(_simp(a), {}, symbol_of, ignore_mod=ignore_mod)
+    kws = []
     for k in call.keywords:
-        if k.arg not in out:
-            raise AnalysisError(f"{fi.qualname}: unknown keyword {k.arg}")
-        out[k.arg] = eval_expr(_simp(k.value), {}, symbol_of, ignore_mod=ignore_mod)
+        if k.arg is None:
+            items = _dict_items(_simp(k.value))                 # **{"a": ..., "b": ...} / **{name: f(name) for name in (...)}
+            if items is None:
+                raise AnalysisError(f"undecided: {fi.qualname}: keyword arguments `**{norm(k.value)[:50]}` are not a literal mapping")
+            kws.extend(items)
+        else:
+            kws.append((k.arg, k.value))
+    for name, value in kws:
+        if name not in out:
+            raise AnalysisError(f"{fi.qualname}: unknown keyword {name}")
+        out[name] = eval_expr(_simp(value), {}, symbol_of, ignore_mod=ignore_mod)
     return out
 
 
@@ -597,6 +887,7 @@ def _oblige_operator(ctx: Ctx, fi: FuncInfo, num, den) -> dict[str, Poly]:
 
 
 def rule_ring_laws(ctx: Ctx) -> None:
+    _use(ctx)
     repo = ctx.repo
     cls = repo.cls("FP2Value", VP)
     n1, d1, n2, d2 = operands()
@@ -607,8 +898,17 @@ def rule_ring_laws(ctx: Ctx) -> None:
         "__sub__": (tuple(x - y for x, y in zip(mul2(n1, d2), mul2(n2, d1))), mul2(d1, d2)),
     }
     res = {}
+    fm = _FieldModel(ctx, cls)
     for name, (num, den) in ref.items():
-        res[name] = _oblige_operator(ctx, cls.methods[name], num, den)
+        try:
+            res[name] = _oblige_operator(ctx, cls.methods[name], num, den)
+        except AnalysisError as e:
+            # the method is written in a way the symbolic reading does not follow: decide this operator on model operands
+            bad = _model_verdict(ctx, cls.methods[name], name, lambda n=name: fm.operator(n), e)
+            ctx.oblige(not bad)
+            ctx.check(not bad, "ring-laws", cls.methods[name], f"{name}: model operands", f"{name} equals the field operation on the model operand set (symbolic reading: {str(e)[:80]})",
+                      f"{name} is not the arithmetic of Z[x]/(x^2+x+1) fractions: {bad}")
+            res[name] = {"a": num[0], "b": num[1], "c": Poly.const(0), "aC": den[0], "bC": den[1], "cC": Poly.const(0)}   # the derived laws then speak about the reference
     # derived laws on the implementation's own polynomials
     swap = {f"s_{k}": f"o_{k}" for k in SYMS} | {f"o_{k}": f"s_{k}" for k in SYMS}
     for name in ("__add__", "__mul__"):
@@ -647,19 +947,42 @@ def rule_ring_laws(ctx: Ctx) -> None:
     # inverse swaps numerator and denominator (every return path, under its own equalities)
     invf = cls.methods["inverse"]
     pairs = {"a": "aC", "b": "bC", "c": "cC", "aC": "a", "bC": "b", "cC": "c"}
-    for r, conds, mapping, opaque in method_results(ctx, invf):
+    try:
+        inv_results = method_results(ctx, invf)
+        for r, conds, mapping, opaque in inv_results:
+            for k, src in pairs.items():
+                got, want = _apply(r[k], mapping), _apply(V("s", src), mapping)
+                if conds and opaque and not (got - want).is_zero():
+                    raise AnalysisError(f"undecided: {invf.qualname}: path `{_describe(conds)}` is not understood")
+    except AnalysisError as e:
+        inv_results = None
+        bad = _model_verdict(ctx, invf, "inverse", fm.inverse, e)
+        ctx.oblige(not bad)
+        ctx.check(not bad, "ring-laws", invf, "inverse: model operands", "inverse swaps numerator and denominator on the model operand set",
+                  f"inverse does not swap numerator and denominator: {bad}")
+    for r, conds, mapping, opaque in inv_results or []:
         for k, src in pairs.items():
             got, want = _apply(r[k], mapping), _apply(V("s", src), mapping)
-            if conds and opaque and not (got - want).is_zero():
-                raise AnalysisError(f"undecided: {invf.qualname}: path `{_describe(conds)}` is not understood")
             oblige(ctx, invf, f"{k} <- self.{src}" + (f" [path: {_describe(conds)}]" if conds else ""), got, want)
-    _check_normalize(ctx, cls)
+    _check_normalize(ctx, cls, fm)
     mi = repo.func(VP, "_modinv")
-    ok = _modinv_invariant(ctx, mi)
+    try:
+        ok = _modinv_invariant(ctx, mi)
+        sym_out: AnalysisError | str = "_modinv no longer maintains the extended-Euclid invariant"
+    except AnalysisError as e:
+        ok, sym_out = False, e
+    if not ok:
+        # not the loop shape the invariant is read from (or the invariant fails): the defining property (x * e) mod m == 1 on model operands
+        ok = not _model_verdict(ctx, mi, "_modinv", fm.modinv, sym_out)
     ctx.oblige(ok)
     ctx.check(ok, "ring-laws", mi, mi.node, "_modinv maintains x1*e = a and x2*e = b (mod m) and returns x1 % m when b reaches 0",
               "_modinv no longer maintains the extended-Euclid invariant: it does not return the modular inverse")
-    _check_eq(ctx, cls)
+    try:
+        _check_eq(ctx, cls)
+    except AnalysisError as e:
+        if "undecided" not in str(e):
+            raise
+        _check_eq_model(ctx, cls, str(e))
     _check_init(ctx, cls)
 
 
@@ -673,8 +996,28 @@ def _is_mp(e: ast.AST) -> bool:
         norm(e.args[0]) in ("self.aC % self.mod", "self.aC")
 
 
-def _check_normalize(ctx: Ctx, cls) -> None:
+class _NotRead(Exception):
+    """the symbolic reading of a method did not find the construct it reasons about (its shape is not recognised)"""
+
+
+def _check_normalize(ctx: Ctx, cls, fm=None) -> None:
     """normalize: on the path where mp = modinv(aC) is positive, every coefficient is scaled by the same mp and aC becomes 1."""
+    nz = cls.methods["normalize"]
+    try:
+        _check_normalize_symbolic(ctx, cls)
+    except (_NotRead, AnalysisError) as e:
+        # neither a path guarded by the sign of modinv(aC) nor an unguarded use of it was found (the scaling went into a form the
+        # path reading does not follow): the defining behaviour on model operands decides
+        if fm is None:
+            raise AnalysisError(f"undecided: {nz.qualname}: {e}") from None
+        bad = _model_verdict(ctx, nz, "normalize", fm.normalize, e if isinstance(e, AnalysisError) else AnalysisError(f"undecided: {nz.qualname}: {e}"))
+        ctx.oblige(not bad)
+        ctx.check(not bad, "ring-laws", nz, nz.node, "normalize: mp = modinv(aC)", f"normalize does not scale by the inverse of aC: {bad}")
+        ctx.oblige(not bad)
+        ctx.check(not bad, "ring-laws", nz, nz.node, "normalize has the mp > 0 branch", f"normalize lost its scaling branch: {bad}")
+
+
+def _check_normalize_symbolic(ctx: Ctx, cls) -> None:
     nz = cls.methods["normalize"]
 
     def symn(e):
@@ -692,6 +1035,9 @@ def _check_normalize(ctx: Ctx, cls) -> None:
             scaled.append((st, ret))
         elif v is None and isinstance(ret, ast.Call) and any(_is_modinv(x) for x in ast.walk(ret)):
             unguarded.append((st, ret))
+    if not scaled and not unguarded and not wrong_target:
+        raise _NotRead("no return path mentions the modular inverse of aC")
+    coeffs = [_fp2_coeffs(nz, ret, symn, ignore_mod="self.mod") for st, ret in scaled]        # may raise: nothing has been reported yet
     ok = bool(scaled) and not wrong_target
     ctx.oblige(ok)
     ctx.check(ok, "ring-laws", nz, nz.node, "normalize: mp = modinv(aC)", "normalize does not scale by the inverse of aC")
@@ -699,8 +1045,7 @@ def _check_normalize(ctx: Ctx, cls) -> None:
     ctx.oblige(ok)
     ctx.check(ok, "ring-laws", nz, nz.node, "normalize has the mp > 0 branch",
               "normalize lost its scaling branch: the scaled value is not (only) returned when the inverse of aC exists")
-    for n, (st, ret) in enumerate(scaled):
-        r = _fp2_coeffs(nz, ret, symn, ignore_mod="self.mod")
+    for n, r in enumerate(coeffs):
         for k in SYMS:
             want = Poly.const(1) if k == "aC" else V("s", k) * Poly.var("mp")
             oblige(ctx, nz, f"normalize {k}" + (f" [path {n + 1}]" if n else ""), r[k], want)
@@ -784,6 +1129,186 @@ def _check_eq(ctx: Ctx, cls) -> None:
               "FP2Value equality is no longer quotient == 1: " + why)
 
 
+class _FieldModel:
+    """
+    Reference arithmetic of fractions over F_p[x]/(x^2+x+1) on plain integers, and FP2Value methods interpreted on model values
+    (see _Model).  Decides a ring-law question when the symbolic reading does not understand how a method is written: the method
+    is evaluated for a fixed set of operands (scalars, x and x^2 terms in numerator and denominator, non-normalised denominators,
+    zero, operands of the shape fast paths test for) over two primes and compared - as fractions, by cross-multiplication -
+    with the reference.  A mismatch refutes the law; agreement on the whole set is the verdict of this fallback.
+    """
+
+    PRIMES = (11, 1000003)
+    REPS = ((3, 0, 0, 1, 0, 0), (6, 0, 0, 2, 0, 0), (3, 5, 0, 1, 0, 0), (4, 6, 1, 1, 0, 2), (3, 5, 0, 2, 1, 1), (0, 0, 0, 1, 0, 0), (1, 1, 1, 1, 0, 0),
+            (5, 7, 2, 3, 1, 4), (2, 0, 0, 1, 0, 0), (1, 0, 0, 1, 0, 0), (7, 2, 0, 0, 3, 0), (1, 9, 0, 1, 0, 0))
+
+    def __init__(self, ctx: Ctx, cls) -> None:
+        self.repo, self.cls = ctx.repo, cls
+
+    # ---- reference
+    @staticmethod
+    def red(v, p):
+        a, b, c, aC, bC, cC = v
+        return ((a - c) % p, (b - c) % p), ((aC - cC) % p, (bC - cC) % p)
+
+    @staticmethod
+    def mul(u, v, p):
+        return ((u[0] * v[0] - u[1] * v[1]) % p, (u[0] * v[1] + u[1] * v[0] - u[1] * v[1]) % p)
+
+    def same(self, x, y, p) -> bool:
+        (n1, d1), (n2, d2) = x, y
+        return d1 != (0, 0) and d2 != (0, 0) and self.mul(n1, d2, p) == self.mul(n2, d1, p)
+
+    def ref_op(self, op: str, x, y, p):
+        (n1, d1), (n2, d2) = x, y
+        if op == "__mul__":
+            return self.mul(n1, n2, p), self.mul(d1, d2, p)
+        if op == "__floordiv__":
+            return self.mul(n1, d2, p), self.mul(d1, n2, p)
+        s1, s2 = self.mul(n1, d2, p), self.mul(n2, d1, p)
+        sign = 1 if op == "__add__" else -1
+        return ((s1[0] + sign * s2[0]) % p, (s1[1] + sign * s2[1]) % p), self.mul(d1, d2, p)
+
+    def attrs(self, obj, p):
+        if not isinstance(obj, _Obj) or any(k not in obj.attrs for k in SYMS):
+            return None
+        return tuple(obj.attrs[k] for k in SYMS)
+
+    # ---- checks: each returns "" (holds on the model set) or a description of the first mismatch
+    def operator(self, name: str) -> str:
+        m = _Model(self.repo, budget=3000000)
+        fi = self.cls.methods[name]
+        for p in self.PRIMES:
+            objs = [m.instantiate(self.cls, [p, *v], {}) for v in self.REPS]
+            for i, x in enumerate(self.REPS):
+                for j, y in enumerate(self.REPS):
+                    rx, ry = self.red(x, p), self.red(y, p)
+                    if rx[1] == (0, 0) or ry[1] == (0, 0) or (name == "__floordiv__" and ry[0] == (0, 0)):
+                        continue
+                    try:
+                        got = self.attrs(m.call(fi, [objs[i], objs[j]], {}), p)
+                    except _Raised as r:
+                        return f"modulo {p}, {x} {name} {y} raises {r.kind}"
+                    want = self.ref_op(name, rx, ry, p)
+                    if got is None or not self.same(self.red(got, p), want, p):
+                        return f"modulo {p}, {x} {name} {y} gives {got}, which is not the field result"
+        return ""
+
+    def inverse(self) -> str:
+        m = _Model(self.repo, budget=1000000)
+        fi = self.cls.methods["inverse"]
+        for p in self.PRIMES:
+            for v in self.REPS:
+                got = self.attrs(m.call(fi, [m.instantiate(self.cls, [p, *v], {})], {}), p)
+                want = tuple(x % p for x in (v[3], v[4], v[5], v[0], v[1], v[2]))
+                if got != want:
+                    return f"modulo {p}, inverse of {v} gives {got}"
+        return ""
+
+    def normalize(self) -> str:
+        m = _Model(self.repo, budget=1000000)
+        fi = self.cls.methods["normalize"]
+        for p in self.PRIMES:
+            for v in self.REPS:
+                got = self.attrs(m.call(fi, [m.instantiate(self.cls, [p, *v], {})], {}), p)
+                if v[3] % p:
+                    mp = pow(v[3], -1, p)
+                    want = tuple((x * mp) % p for x in v)
+                else:
+                    want = tuple(x % p for x in v)
+                if got != want:
+                    return f"modulo {p}, normalize of {v} gives {got} instead of {want}"
+        return ""
+
+    def modinv(self) -> str:
+        m = _Model(self.repo, budget=1000000)
+        fi = self.repo.func(VP, "_modinv")
+        for mod in (2, 11, 13, 1000003, 2 ** 61 - 1):
+            for e in (1, 2, 3, 5, 10, mod - 1, mod + 2, 123456789):
+                if e % mod == 0:
+                    continue
+                got = m.call(fi, [e, mod], {})
+                if not isinstance(got, int) or (got * e) % mod != 1 % mod or not 0 <= got < mod:
+                    return f"_modinv({e}, {mod}) gives {got}"
+        return ""
+
+    def intpow(self) -> str:
+        m = _Model(self.repo, budget=4000000)
+        fi = self.cls.methods["intpow"]
+        p = 11
+        for v in ((2, 0, 0, 1, 0, 0), (3, 5, 0, 1, 0, 0), (1, 1, 0, 2, 3, 0), (4, 6, 1, 1, 0, 2)):
+            base = self.red(v, p)
+            for k in (0, 1, 2, 3, 5, 8, 12, 13, 24, 25, 131, -1, -2, -7, -13):
+                want = ((1, 0), (1, 0))
+                for _ in range(abs(k)):
+                    want = (self.mul(want[0], base[0], p), self.mul(want[1], base[1], p))
+                if k < 0:
+                    want = (want[1], want[0])
+                try:
+                    got = self.attrs(m.call(fi, [m.instantiate(self.cls, [p, *v], {}), k], {}), p)
+                except _Raised as r:
+                    return f"modulo {p}, {v}.intpow({k}) raises {r.kind}"
+                if got is None or not self.same(self.red(got, p), want, p):
+                    return f"modulo {p}, {v}.intpow({k}) gives {got}, which is not the {k}-th power"
+        return ""
+
+
+def _model_verdict(ctx: Ctx, fi: FuncInfo, what: str, run, symbolic: AnalysisError | str):
+    """Result of a model fallback: '' (holds) / mismatch text; when the model cannot be evaluated either, the symbolic outcome stands."""
+    try:
+        return run()
+    except _NoModel as e:
+        if isinstance(symbolic, AnalysisError):
+            raise AnalysisError(f"{symbolic}; model evaluation of {what} stopped at {e}") from None
+        return symbolic
+    except _Raised as r:
+        return f"{what} raises {r.kind} on a model value"
+
+
+def _check_eq_model(ctx: Ctx, cls, reason: str) -> None:
+    """
+    __eq__ in a spelling the decision table does not read (another route to the quotient, a helper with its own arithmetic):
+    equality is evaluated on model values over a small prime - every pair of a set that contains equal fractions in different
+    representations, fractions that differ in one coefficient only, x^2 terms - and compared with cross-multiplication in
+    F_p[x]/(x^2+x+1).
+    """
+    eq = cls.methods["__eq__"]
+    p = 11
+    reps = [(3, 0, 0, 1, 0, 0), (6, 0, 0, 2, 0, 0), (3, 5, 0, 1, 0, 0), (3, 6, 0, 1, 0, 0), (4, 5, 0, 1, 0, 0), (3, 5, 0, 1, 2, 0), (6, 10, 0, 2, 4, 0),
+            (4, 6, 1, 1, 0, 0), (3, 5, 0, 2, 1, 1), (0, 0, 0, 1, 0, 0), (1, 1, 1, 1, 0, 0), (5, 7, 2, 3, 1, 4)]
+
+    def red(v):
+        a, b, c, aC, bC, cC = v
+        return ((a - c) % p, (b - c) % p), ((aC - cC) % p, (bC - cC) % p)
+
+    def mul(u, v):
+        return ((u[0] * v[0] - u[1] * v[1]) % p, (u[0] * v[1] + u[1] * v[0] - u[1] * v[1]) % p)
+    bad = None
+    try:
+        m = _Model(ctx.repo, budget=2000000)
+        objs = [m.instantiate(cls, [p, *v], {}) for v in reps]
+        for i, x in enumerate(reps):
+            for j, y in enumerate(reps):
+                (n1, d1), (n2, d2) = red(x), red(y)
+                if d1 == (0, 0) or d2 == (0, 0) or n2 == (0, 0):
+                    continue                                      # zero denominators / x // 0: outside the field laws
+                want = mul(n1, d2) == mul(n2, d1)
+                try:
+                    got = bool(m.call(eq, [objs[i], objs[j]], {}))
+                except _Raised as r:
+                    got = f"raises {r.kind}"
+                if got != want and bad is None:
+                    bad = (x, y, got, want)
+        other = m.call(eq, [objs[0], 3], {})
+        if other is not False and bad is None:
+            bad = (reps[0], 3, other, False)
+    except _NoModel as e:
+        raise AnalysisError(f"{reason}; model evaluation stopped at {e}") from None
+    ctx.oblige(bad is None)
+    ctx.check(bad is None, "ring-laws", eq, eq.node, "equality = normalised quotient has numerator == denominator",
+              "FP2Value equality is no longer quotient == 1: " + (f"modulo {p}, {bad[0]} == {bad[1]} gives {bad[2]} instead of {bad[3]}" if bad else ""))
+
+
 def _check_init(ctx: Ctx, cls) -> None:
     """constructor reduces all six coefficients modulo mod"""
     init = cls.methods["__init__"]
@@ -798,6 +1323,24 @@ def _check_init(ctx: Ctx, cls) -> None:
                 ok = ok and v is not None and norm(v) == f"{p[2 + i]} % {p[1]}"
             v = st.env.get("@self.mod")
             ok = ok and v is not None and norm(v) == p[1]
+    if not ok:
+        # not six plain `self.x = x % mod` stores (setattr loop, helper, ...): construct model values and look at what was stored
+        try:
+            for args in ([7, 15, -3, 22, 8, 29, 30], [11, 5], [2 ** 61 - 1, 2 ** 70, 3, 2 ** 61 - 1, 2 ** 61, 1, 0], [5]):
+                obj = _Model(ctx.repo).instantiate(cls, list(args), {})
+                mod = args[0]
+                full = list(args[1:]) + [DEFAULTS[k] for k in SYMS[len(args) - 1:]]
+                want = {"mod": mod, **{k: v % mod for k, v in zip(SYMS, full)}}
+                got = {k: obj.attrs.get(k) for k in want}
+                ok = got == want
+                if not ok:
+                    break
+            else:
+                ok = True
+        except _Raised:
+            ok = False
+        except _NoModel as e:
+            raise AnalysisError(f"undecided: {init.qualname}: not six `self.x = x % mod` stores, and model construction stopped at {e}") from None
     ctx.oblige(ok)
     ctx.check(ok, "ring-laws", init, init.node, "constructor stores every coefficient reduced modulo mod", "constructor no longer reduces/stores the six coefficients")
 
@@ -932,40 +1475,131 @@ def _intpow_body(fi: FuncInfo, body, n: str, odd: bool):
     One loop iteration on formal values: every local X is the monomial {X: 1}, products add exponents.  Returns
     (final monomials, n halved exactly once and only after its parity was read) for an odd / even n.
     """
+    # The iteration is executed on VALUES, not on statement shapes: an integer local holds this iteration's exponent N,
+    # its half H = N // 2, its parity bit P = N % 2 (wherever it was computed: `n % 2`, `n & 1`, divmod(n, 2)[1], a flag
+    # local), a constant, or something else (Q); a group local holds a monomial.  A parity test is decided from the value
+    # it reads; reading the parity / half of the already halved exponent gives Q-values, never P / H.
     env: dict[str, dict[str, int]] = {}
-    state = {"halved": 0, "bad": False}
+    ints: dict[str, tuple] = {n: ("N",)}
+    state = {"bad": False}
+
+    def int_eval(e):  # noqa: PLR0911
+        """Abstract integer value of e, or None if e is not (recognisably) an integer expression over the exponent."""
+        if isinstance(e, ast.Constant) and isinstance(e.value, int) and not isinstance(e.value, bool):
+            return ("c", e.value)
+        if isinstance(e, ast.Name):
+            return ints.get(e.id)
+        if isinstance(e, ast.Call) and chain(e.func) == "int" and len(e.args) == 1 and not e.keywords:
+            return int_eval(e.args[0])
+        if isinstance(e, ast.Call) and chain(e.func) == "divmod" and len(e.args) == 2 and not e.keywords:
+            x = int_eval(e.args[0])
+            if x is None or const_value(e.args[1]) != 2:
+                return None
+            return ("pair", ("H",), ("P",)) if x == ("N",) else ("pair", ("Q",), ("Qp",))
+        if isinstance(e, ast.Subscript) and isinstance(const_value(e.slice), int):
+            x = int_eval(e.value)
+            if x is not None and x[0] == "pair" and const_value(e.slice) in (0, 1):
+                return x[1 + const_value(e.slice)]
+            return None
+        if isinstance(e, ast.BinOp):
+            x = int_eval(e.left)
+            if x is None:
+                return None
+            r = const_value(e.right)
+            if (isinstance(e.op, ast.Mod) and r == 2) or (isinstance(e.op, ast.BitAnd) and r == 1):
+                return ("P",) if x == ("N",) else ("P",) if x == ("P",) else ("Qp",)
+            if (isinstance(e.op, ast.FloorDiv) and r == 2) or (isinstance(e.op, ast.RShift) and r == 1):
+                return ("H",) if x in (("N",), ("N-P",)) else ("Q",)
+            if isinstance(e.op, ast.Sub) and x == ("N",) and int_eval(e.right) == ("P",):
+                return ("N-P",)
+            return ("Q",)
+        return None
+
+    def parity(test):
+        """True / False: the test holds / does not hold in this iteration (decided from the parity bit); None: not a parity test."""
+        facts = _atoms_with_polarity(test, True)
+        if len(facts) != 1:
+            return None
+        f = facts[0]
+        if f.op == "truthy":
+            v = int_eval(f.left)
+            if v == ("Qp",):
+                state["bad"] = True                        # parity of the already halved exponent
+                v = ("P",)
+            return (f.pos == odd) if v == ("P",) else None
+        if f.op == "eq" and f.right is not None:
+            for x, y in ((f.left, f.right), (f.right, f.left)):
+                v = int_eval(x)
+                if v == ("Qp",):
+                    state["bad"] = True
+                    v = ("P",)
+                if v == ("P",) and const_value(y) in (0, 1):
+                    return (f.pos == (const_value(y) == 1)) == odd
+        return None
 
     def mono(e):
-        if isinstance(e, ast.Name):
+        if isinstance(e, ast.Name) and e.id not in ints:
             return dict(env.get(e.id, {e.id: 1}))
         if isinstance(e, ast.BinOp) and isinstance(e.op, ast.Mult):
             le, ri = mono(e.left), mono(e.right)
             for k, v in ri.items():
                 le[k] = le.get(k, 0) + v
             return le
+        if isinstance(e, ast.Call) and isinstance(e.func, ast.Attribute) and e.func.attr == "__mul__" and len(e.args) == 1 and not e.keywords:
+            return mono(ast.BinOp(left=e.func.value, op=ast.Mult(), right=e.args[0]))
+        if isinstance(e, ast.IfExp):
+            p = parity(e.test)
+            if p is not None:
+                return mono(e.body if p else e.orelse)
         raise AnalysisError(f"undecided: {fi.qualname}: loop expression `{norm(e)[:60]}`")
+
+    def bind(name: str, value) -> None:
+        """value: an abstract integer (tuple) or a monomial (dict)"""
+        if isinstance(value, tuple):
+            ints[name] = value
+            env.pop(name, None)
+        else:
+            if name == n:
+                raise AnalysisError(f"undecided: {fi.qualname}: the exponent `{n}` is assigned a group value in the loop")
+            ints.pop(name, None)
+            env[name] = value
+
+    def value_of(e):
+        v = int_eval(e)
+        return v if v is not None else mono(e)
 
     def block(stmts):
         for s in stmts:
             if isinstance(s, ast.If):
-                p = _parity(s.test, n)
+                p = parity(s.test)
                 if p is None:
                     raise AnalysisError(f"undecided: {fi.qualname}: loop condition `{norm(s.test)[:60]}`")
-                if state["halved"]:
-                    state["bad"] = True                    # parity of the already halved exponent
-                block(s.body if p == odd else s.orelse)
-            elif _halves(s, n):
-                state["halved"] += 1
-            elif isinstance(s, ast.AugAssign) and isinstance(s.target, ast.Name) and isinstance(s.op, ast.Mult) and s.target.id != n:
-                env[s.target.id] = mono(ast.BinOp(left=ast.Name(id=s.target.id, ctx=ast.Load()), op=ast.Mult(), right=s.value))
-            elif isinstance(s, ast.Assign) and len(s.targets) == 1 and isinstance(s.targets[0], ast.Name) and s.targets[0].id != n:
-                env[s.targets[0].id] = mono(s.value)
+                block(s.body if p else s.orelse)
+            elif isinstance(s, ast.AugAssign) and isinstance(s.target, ast.Name):
+                bind(s.target.id, value_of(ast.BinOp(left=ast.Name(id=s.target.id, ctx=ast.Load()), op=s.op, right=s.value)))
+            elif isinstance(s, (ast.Assign, ast.AnnAssign)) and s.value is not None:
+                targets = s.targets if isinstance(s, ast.Assign) else [s.target]
+                for t in targets:
+                    if isinstance(t, ast.Name):
+                        bind(t.id, value_of(s.value))
+                    elif isinstance(t, (ast.Tuple, ast.List)) and all(isinstance(x, ast.Name) for x in t.elts):
+                        if isinstance(s.value, (ast.Tuple, ast.List)) and len(s.value.elts) == len(t.elts):
+                            vals = [value_of(x) for x in s.value.elts]          # parallel assignment: all read before any write
+                        else:
+                            v = int_eval(s.value)
+                            if v is None or v[0] != "pair" or len(t.elts) != 2:
+                                raise AnalysisError(f"undecided: {fi.qualname}: loop statement `{norm(s)[:60]}`")
+                            vals = [v[1], v[2]]
+                        for x, val in zip(t.elts, vals):
+                            bind(x.id, val)
+                    else:
+                        raise AnalysisError(f"undecided: {fi.qualname}: loop statement `{norm(s)[:60]}`")
             elif isinstance(s, ast.Pass) or (isinstance(s, ast.Expr) and isinstance(s.value, ast.Constant)):
                 continue
             else:
                 raise AnalysisError(f"undecided: {fi.qualname}: loop statement `{norm(s)[:60]}`")
     block(body)
-    return env, state["halved"] == 1 and not state["bad"]
+    return env, ints.get(n) == ("H",) and not state["bad"]
 
 
 def rule_intpow(ctx: Ctx) -> None:  # noqa: C901, PLR0912, PLR0915
@@ -973,6 +1607,7 @@ def rule_intpow(ctx: Ctx) -> None:  # noqa: C901, PLR0912, PLR0915
     intpow(power) is repeated multiplication: the loop keeps  acc * sq^n == self^|power|  (n odd: acc*sq, always sq*sq,
     n // 2), starts from acc = 1, sq = self, n = |power|, runs until n == 0 and the result is acc, inverted for power < 0.
     """
+    _use(ctx)
     fi = ctx.repo.cls("FP2Value", VP).methods["intpow"]
     power = fi.params()[1]
     seen: dict = {}
@@ -1024,7 +1659,10 @@ def rule_intpow(ctx: Ctx) -> None:  # noqa: C901, PLR0912, PLR0915
             for x in accs:
                 post.env[x] = ast.Name(id=_ACC, ctx=ast.Load())
         return [post]
-    paths = _paths(fi, hook)
+    try:
+        paths = _paths(fi, hook)
+    except AnalysisError as e:
+        paths, seen["unread"] = [], e
     verdict["loop"] = bool(seen.get("loops_ok")) and all(seen["loops_ok"]) and not seen.get("many")
     for k in ("R0", "U0", "n0"):
         verdict[k] = bool(seen.get(k)) and all(seen[k])
@@ -1039,9 +1677,16 @@ def rule_intpow(ctx: Ctx) -> None:  # noqa: C901, PLR0912, PLR0915
             res = False
     verdict["result"] = res
     good = all(verdict.values())
+    why = f"intpow is not square-and-multiply (loop={verdict['loop']} R0={verdict['R0']} U0={verdict['U0']} n0={verdict['n0']} result={verdict['result']})"
+    if not good and ("unread" in seen or not seen.get("loops_ok")):
+        # no `while n > 0` square-and-multiply loop was read (another loop form, a helper, recursion): powers of model operands, including
+        # exponents beyond the group order and negative ones, compared with repeated multiplication in F_p[x]/(x^2+x+1)
+        cls = ctx.repo.cls("FP2Value", VP)
+        sym_out = seen.get("unread") or AnalysisError(f"undecided: {fi.qualname}: no square-and-multiply loop recognised")
+        bad = _model_verdict(ctx, fi, "intpow", _FieldModel(ctx, cls).intpow, sym_out)
+        good, why = not bad, f"intpow is not repeated multiplication: {bad}"
     ctx.oblige(good)
-    ctx.check(good, "ring-laws", fi, fi.node, "intpow is square-and-multiply from 1 with inverse for negative powers",
-              f"intpow is not square-and-multiply (loop={verdict['loop']} R0={verdict['R0']} U0={verdict['U0']} n0={verdict['n0']} result={verdict['result']})")
+    ctx.check(good, "ring-laws", fi, fi.node, "intpow is square-and-multiply from 1 with inverse for negative powers", why)
 
 
 # ------------------------------------------------------------------------------------------------------------------
@@ -1103,7 +1748,7 @@ def _star_args(call: ast.Call) -> list[ast.AST] | None:
     out = []
     for a in call.args:
         if isinstance(a, ast.Starred):
-            elts = _literal_elements(a.value)
+            elts = _literal_elements(_simp(a.value))
             if elts is None:
                 return None
             out.extend(elts)
@@ -1112,25 +1757,180 @@ def _star_args(call: ast.Call) -> list[ast.AST] | None:
     return out
 
 
+def _ref_unpack_all(data: bytes, limit: int = 64):
+    """The integers of a byte string in the documented layout [1 byte: len(L)][L: big-endian len(P)][P: big-endian number]; None if malformed."""
+    out = []
+    while data and len(out) < limit:
+        ll = data[0]
+        if len(data) < 1 + ll:
+            return None
+        ln = int.from_bytes(data[1:1 + ll], "big")
+        if len(data) < 1 + ll + ln:
+            return None
+        out.append(int.from_bytes(data[1 + ll:1 + ll + ln], "big"))
+        data = data[1 + ll + ln:]
+    return out
+
+
+class _CodecModel:
+    """
+    Finite-model round trips of the key / bit-pair / integer codecs (syntax trees interpreted on model values, see _Model).
+    Used where the symbolic reading of a codec function does not recognise its shape: a round trip that fails on a model
+    value refutes "keys and attestations survive serialisation"; one that holds on values of every size class (one-byte,
+    multi-byte, 300-byte numbers, zero) decides the arity / order / pairing questions the symbolic rules ask.
+    """
+
+    P = 2 ** 127 - 1
+
+    def __init__(self, ctx: Ctx) -> None:
+        self.repo = ctx.repo
+        self.fp = self.repo.cls("FP2Value", VP)
+        self.memo: dict = {}
+
+    def _m(self) -> "_Model":
+        return _Model(self.repo, budget=400000)
+
+    def _run(self, key, fn):
+        if key not in self.memo:
+            try:
+                self.memo[key] = fn()
+            except _NoModel as e:
+                self.memo[key] = AnalysisError(f"undecided: model evaluation of the {key[0]} codec stopped at {e}")
+        r = self.memo[key]
+        if isinstance(r, AnalysisError):
+            raise r
+        return r
+
+    def _key(self, m: "_Model", cls):
+        vals = [self.P, 5, 2 ** 100 + 7, 2 ** 64 + 11, 255, 2 ** 300 + 1, 256]
+        n = self.repo.resolve_const(cls.module, cls.lookup_attr("FIELDS"), cls)
+        g = m.instantiate(self.fp, [vals[0], vals[1], vals[2]], {})
+        h = m.instantiate(self.fp, [vals[0], vals[3], vals[4]], {})
+        init = cls.lookup("__init__")
+        extra = max(0, len(init.params()) - 4) if init is not None else 0
+        obj = m.instantiate(cls, [vals[0], g, h, *vals[5:5 + extra]], {})
+        return obj, vals[:5 + extra], n
+
+    @staticmethod
+    def _key_fields(obj) -> list | None:
+        try:
+            out = [obj.attrs["p"], obj.attrs["g"].attrs["a"], obj.attrs["g"].attrs["b"], obj.attrs["h"].attrs["a"], obj.attrs["h"].attrs["b"]]
+            out += [obj.attrs[k] for k in ("n", "t1") if k in obj.attrs]
+            return out
+        except (KeyError, AttributeError):
+            return None
+
+    def key_emits(self, cls):
+        """the integers serialize() writes for a model key (None: not a sequence of integers in the documented layout), and the model values"""
+        def go():
+            m = self._m()
+            obj, vals, _ = self._key(m, cls)
+            try:
+                data = m.call(cls.lookup("serialize"), [obj], {})
+            except _Raised as r:
+                return f"raises {r.kind}", vals
+            return (_ref_unpack_all(data) if isinstance(data, bytes) else None), vals
+        return self._run(("key", cls.name, "emits"), go)
+
+    def key_arity(self, cls):
+        """(ok, explanation): unserialize gives None for fewer than FIELDS integers, else exactly the first FIELDS fields"""
+        def go():
+            m = self._m()
+            obj, vals, n = self._key(m, cls)
+            pack = self.repo.func(PS, "ipack")
+            stream = [*vals, 3, 2 ** 70, 9][:max(len(vals), n) + 3]
+            for k in range(len(stream) + 1):
+                data = b"".join(m.call(pack, [v], {}) for v in stream[:k])
+                try:
+                    back = m.call(cls.lookup("unserialize"), [("@class", cls), data], {})
+                    got = None if back is None else self._key_fields(back) if isinstance(back, _Obj) else "?"
+                except _Raised as r:
+                    got = f"raises {r.kind}"
+                want = None if k < n else stream[:n]
+                if got != want:
+                    return False, f"for {k} serialized integers {cls.name}.unserialize gives {got if not isinstance(got, list) else 'a key with fields ' + str(got)[:80]}"
+            return True, ""
+        return self._run(("key", cls.name, "arity"), go)
+
+    def bitpair(self, bp):
+        """(written integers | None, fields read back | text, lengths agree)"""
+        def go():
+            m = self._m()
+            p = 1000003
+            vs = [m.instantiate(self.fp, [p, 3 + 2 * i, 2 ** 18 + 4 + 2 * i], {}) for i in range(3)]
+            obj = m.instantiate(bp, vs, {})
+            want = [3, 2 ** 18 + 4, 5, 2 ** 18 + 6, 7, 2 ** 18 + 8]
+            try:
+                data = m.call(bp.lookup("serialize"), [obj], {})
+            except _Raised as r:
+                return f"raises {r.kind}", None, want
+            written = _ref_unpack_all(data) if isinstance(data, bytes) else None
+            try:
+                back = m.call(bp.lookup("unserialize"), [("@class", bp), data + m.call(self.repo.func(PS, "ipack"), [99], {}), p], {})
+                got = [back.attrs[k].attrs[c] for k in ("a", "b", "complement") for c in ("a", "b")]
+            except _Raised as r:
+                got = f"raises {r.kind}"
+            except (KeyError, AttributeError):
+                got = "an object without a / b / complement values"
+            return written, got, want
+        return self._run(("bitpair", bp.name), go)
+
+    def integers(self):
+        """(ok, explanation): iunpack(ipack(n) + tail) == (n, tail) for every size class"""
+        def go():
+            m = self._m()
+            ip, iu = self.repo.func(PS, "ipack"), self.repo.func(PS, "iunpack")
+            for n in (0, 1, 127, 128, 255, 256, 65535, 65536, 2 ** 64, 2 ** 2048 + 12345, 2 ** (8 * 300) + 77):
+                for tail in (b"", b"\x01\x01\x07rest"):
+                    try:
+                        data = m.call(ip, [n], {})
+                        if _ref_unpack_all(data) != [n]:
+                            return False, f"ipack({n if n < 10 ** 6 else 'a ' + str(n.bit_length()) + '-bit number'}) is not [len-of-len][len][number]"
+                        got = m.call(iu, [data + tail], {})
+                    except _Raised as r:
+                        got = f"raises {r.kind}"
+                    if got != (n, tail):
+                        return False, f"iunpack(ipack(n) + tail) != (n, tail) for a {n.bit_length()}-bit n"
+            return True, ""
+        return self._run(("integer",), go)
+
+
+def _read_bound(fi: FuncInfo):
+    """[(list variable, bound expression, slack)] of the `while ... len(X) < K` read loops of a decoder"""
+    out = []
+    for l in walk_no_nested(fi.node):
+        if isinstance(l, ast.While):
+            b = _len_bound(fi, l.test)
+            if b is not None:
+                out.append(b)
+    return out
+
+
 def rule_codec(ctx: Ctx) -> None:  # noqa: C901, PLR0912, PLR0915
+    _use(ctx)
     repo = ctx.repo
+    model = _CodecModel(ctx)
     for name in ("BonehPublicKey", "BonehPrivateKey"):
         c = repo.cls(name, PS)
         fields = repo.resolve_const(c.module, c.lookup_attr("FIELDS"), c)
-        n = _ipack_count(ctx, c.lookup("serialize"))
-        ctx.check(fields == n, "codec-arity", c.where, "FIELDS", f"{name}.serialize emits {n} integers == FIELDS ({fields})",
-                  f"{name}.serialize emits {n} integers but unserialize reads FIELDS={fields}")
+        try:
+            n = _ipack_count(ctx, c.lookup("serialize"))
+            how = ""
+        except AnalysisError:
+            # the serializer is not a plain concatenation of ipack() terms: count what it writes for a model key
+            emitted, vals = model.key_emits(c)
+            n = len(emitted) if isinstance(emitted, list) else -1
+            how = " (model key)"
+            if isinstance(emitted, list) and emitted != vals:
+                n = -1
+        ctx.check(fields == n, "codec-arity", c.where, "FIELDS", f"{name}.serialize emits {n} integers == FIELDS ({fields}){how}",
+                  f"{name}.serialize emits {n if n >= 0 else 'something other than its'} integers but unserialize reads FIELDS={fields}")
     # key unserialize: the read loop stops at FIELDS integers and nothing but None is returned unless exactly FIELDS were read
     un = repo.method("BonehPublicKey", "unserialize", PS)
-    bounds = []
-    for l in walk_no_nested(un.node):
-        if isinstance(l, ast.While):
-            b = _len_bound(un, l.test)
-            if b is not None and b[2] == 0 and norm(resolve(un, b[1])) == "cls.FIELDS":
-                bounds.append(b[0])
-    ok = len(bounds) == 1
-    built = 0
-    if ok:
+    bounds = [b[0] for b in _read_bound(un) if b[2] == 0 and norm(resolve(un, b[1])) == "cls.FIELDS"]
+    if len(bounds) == 1:
+        ok = True
+        built = 0
         nums = bounds[0]
         want = ast.Compare(left=ast.Call(func=ast.Name(id="len", ctx=ast.Load()), args=[ast.Name(id=nums, ctx=ast.Load())], keywords=[]),
                            ops=[ast.Eq()], comparators=[ast.Attribute(value=ast.Name(id="cls", ctx=ast.Load()), attr="FIELDS", ctx=ast.Load())])
@@ -1141,40 +1941,83 @@ def rule_codec(ctx: Ctx) -> None:  # noqa: C901, PLR0912, PLR0915
             if _decide(want, _known(st.conds)) is not True:
                 ok = False
         ok = ok and built > 0
-    ctx.check(ok, "codec-arity", un, un.node, "key unserialize reads exactly FIELDS integers, else None", "key unserialize accepts a wrong number of fields")
+        why = "key unserialize accepts a wrong number of fields"
+        if not ok:
+            # the guard is not literally `len(nums) == cls.FIELDS` (e.g. `<` after a loop that cannot overshoot): the question is about
+            # counts only, and byte strings with 0 .. FIELDS+3 integers answer it completely
+            try:
+                verdicts = [model.key_arity(repo.cls(name, PS)) for name in ("BonehPublicKey", "BonehPrivateKey")]
+                ok = all(v for v, _ in verdicts)
+                why = why + ": " + "; ".join(w for v, w in verdicts if not v)
+            except AnalysisError:
+                pass
+    else:
+        # no `while len(nums) < cls.FIELDS` loop (for/range, a shared reader, a generator): decide on model byte strings with 0 .. FIELDS+3 integers
+        ok, why = True, ""
+        for name in ("BonehPublicKey", "BonehPrivateKey"):
+            k_ok, k_why = model.key_arity(repo.cls(name, PS))
+            if not k_ok and ok:
+                ok, why = False, "key unserialize accepts a wrong number of fields: " + k_why
+    ctx.check(ok, "codec-arity", un, un.node, "key unserialize reads exactly FIELDS integers, else None", why)
     bp = repo.cls("BitPairAttestation", "ipv8/attestation/wallet/bonehexact/structs.py")
     ser = bp.methods["serialize"]
-    parts = _serialize_parts(ctx, ser)
-    n = len([p for p in parts if _is_ipack(p)])
     u = bp.methods["unserialize"]
-    lim, numsvar = [], None
-    for l in walk_no_nested(u.node):
-        if isinstance(l, ast.While):
-            b = _len_bound(u, l.test)
-            if b is not None and isinstance(const_value(resolve(u, b[1])), int):
-                lim.append(const_value(resolve(u, b[1])) + b[2])
-                numsvar = b[0]
-    idx = sorted({const_value(x.slice) for x in ast.walk(u.node) if isinstance(x, ast.Subscript) and chain(x.value) == numsvar and isinstance(const_value(x.slice), int)})
-    ctx.check(lim == [n] and idx == list(range(n)), "codec-arity", u, u.node, f"BitPairAttestation: {n} integers written, {lim} read, indices {idx}",
-              f"BitPairAttestation serialize/unserialize arity mismatch: writes {n}, reads {lim}, uses {idx}")
-    order = [norm(p.args[0]) if _is_ipack(p) else "?" + norm(p)[:30] for p in parts]
-    ctx.check(order == ["self.a.a", "self.a.b", "self.b.a", "self.b.b", "self.complement.a", "self.complement.b"], "codec-arity", ser, ser.node,
-              "BitPairAttestation field order a, b, complement", f"BitPairAttestation field order changed: {order}")
-    # the value handed to the constructor, whatever locals it went through: cls(FP2Value(p, n0, n1), FP2Value(p, n2, n3), FP2Value(p, n4, n5))
+    want_order = ["self.a.a", "self.a.b", "self.b.a", "self.b.b", "self.complement.a", "self.complement.b"]
+    try:
+        parts = _serialize_parts(ctx, ser)
+    except AnalysisError:
+        parts = None
+    symbolic = parts is not None and all(_is_ipack(p) for p in parts)
+    lims = [(b[0], const_value(resolve(u, b[1])) + b[2]) for b in _read_bound(u) if isinstance(const_value(resolve(u, b[1])), int)]
     pname = u.params()[2] if len(u.params()) > 2 else "p"
-    inits: list[str] = []
-    upaths = [(st, ret) for st, ret in _paths(u) if not (isinstance(ret, ast.Constant) and ret.value is None)]
-    if len(upaths) == 1 and isinstance(upaths[0][1], ast.Call) and chain(upaths[0][1].func) == "cls" and not upaths[0][1].keywords:
-        args = _star_args(upaths[0][1])
-        inits = [norm(_simp(a)) for a in args] if args is not None else []
+    args = None
+    numsvar = lims[0][0] if len(lims) == 1 else None
+    if symbolic and numsvar is not None:
+        upaths = [(st, ret) for st, ret in _paths(u) if not (isinstance(ret, ast.Constant) and ret.value is None)]
+        if len(upaths) == 1 and isinstance(upaths[0][1], ast.Call) and chain(upaths[0][1].func) in ("cls", bp.name) and not upaths[0][1].keywords:
+            args = _star_args(upaths[0][1])
+            args = [_simp(a) for a in args] if args is not None else None
+
+    def pair_of(a):
+        """(i, j) for FP2Value(p, nums[i], nums[j])"""
+        if isinstance(a, ast.Call) and chain(a.func) == "FP2Value" and len(a.args) == 3 and not a.keywords and norm(a.args[0]) == pname:
+            ij = []
+            for x in a.args[1:]:
+                if isinstance(x, ast.Subscript) and chain(x.value) == numsvar and _int_const(x.slice) is not None:
+                    ij.append(_int_const(x.slice))
+            if len(ij) == 2:
+                return tuple(ij)
+        return None
+    pairs = [pair_of(a) for a in args] if args is not None else None
+    if pairs and all(p is not None for p in pairs):
+        # symbolic reading: concatenation of ipack() terms, one bounded read loop, constructor arguments nums[i]
+        n = len(parts)
+        order = [norm(p.args[0]) for p in parts]
+        ctx.check(order == want_order, "codec-arity", ser, ser.node, "BitPairAttestation field order a, b, complement", f"BitPairAttestation field order changed: {order}")
+        lim = [x[1] for x in lims]
+        idx = sorted({k for p in pairs for k in p} |
+                     {_int_const(_simp(x.slice)) for x in ast.walk(u.node) if isinstance(x, ast.Subscript) and chain(x.value) == numsvar
+                      and _int_const(_simp(x.slice)) is not None})
+        ctx.check(lim == [n] and idx == list(range(n)), "codec-arity", u, u.node, f"BitPairAttestation: {n} integers written, {lim} read, indices {idx}",
+                  f"BitPairAttestation serialize/unserialize arity mismatch: writes {n}, reads {lim}, uses {idx}")
+        inits = [norm(a) for a in args]
+        ctx.check(pairs == [(2 * i, 2 * i + 1) for i in range(3)], "codec-arity", u, u.node,
+                  "unserialize rebuilds (a, b, complement) from consecutive pairs", f"unserialize pairs fields differently: {inits}")
     else:
-        inits = [norm(c) for c in calls(u, "FP2Value")]
-    ctx.check(inits == [f"FP2Value({pname}, {numsvar}[{2 * i}], {numsvar}[{2 * i + 1}])" for i in range(3)], "codec-arity", u, u.node,
-              "unserialize rebuilds (a, b, complement) from consecutive pairs", f"unserialize pairs fields differently: {inits}")
-    _check_int_layout(ctx, repo)
+        # another spelling (shared reader, generator, zip of slices, ...): the same three questions on a model attestation
+        written, got, want = model.bitpair(bp)
+        ctx.check(written == want, "codec-arity", ser, ser.node, "BitPairAttestation field order a, b, complement",
+                  f"BitPairAttestation field order changed: a model attestation with (a.a, a.b, b.a, b.b, complement.a, complement.b) = {want} is written as {written}")
+        nread = len(got) if isinstance(got, list) else got
+        ctx.check(isinstance(written, list) and isinstance(got, list) and len(written) == 6, "codec-arity", u, u.node,
+                  f"BitPairAttestation: {len(written) if isinstance(written, list) else written} integers written, {nread} read back (model attestation)",
+                  f"BitPairAttestation serialize/unserialize arity mismatch: writes {written}, reading it back gives {got}")
+        ctx.check(got == want, "codec-arity", u, u.node, "unserialize rebuilds (a, b, complement) from consecutive pairs",
+                  f"unserialize pairs fields differently: the model attestation {want} comes back as {got}")
+    _check_int_layout(ctx, repo, model)
 
 
-def _check_int_layout(ctx: Ctx, repo) -> None:
+def _check_int_layout(ctx: Ctx, repo, model=None) -> None:
     """
     ipack writes [1 byte: len(L)] [L = big-endian length of P] [P = big-endian number]; iunpack reads llen = byte 0,
     l = number in s[1 : 1+llen], the value from s[1+llen : 1+llen+l] and returns the rest s[1+llen+l :].  The slice
@@ -1182,11 +2025,13 @@ def _check_int_layout(ctx: Ctx, repo) -> None:
     """
     ip, iu = repo.func(PS, "ipack"), repo.func(PS, "iunpack")
     ok = False
+    rec1 = rec2 = False                      # the two functions have the shape the symbolic reading understands
     pp = _paths(ip)
     if len(pp) == 1:
         parts = _bytes_parts(ctx, ip, pp[0][1])
         num = ip.params()[0]
         if len(parts) == 3:
+            rec1 = True
             head, ll, pn = parts
             ok = norm(pn) == f"_num_to_str({num})" and norm(ll) == f"_num_to_str(len({norm(pn)}))" and \
                 norm(head) in (f"struct.pack('>B', len({norm(ll)}))", f"bytes([len({norm(ll)})])")
@@ -1229,8 +2074,1296 @@ def _check_int_layout(ctx: Ctx, repo) -> None:
             lo, hi, ro = poly(vb[0]), poly(vb[1]), poly(rb[0])
             start = Poly.const(1) + Poly.var("llen")
             end = start + Poly.var("l")
-            ok2 = lo is not None and hi is not None and ro is not None and (lo - start).is_zero() and (hi - end).is_zero() and (ro - end).is_zero()
-    ctx.check(ok and ok2, "codec-arity", ip, ip.node, "ipack/iunpack agree on [1-byte len-of-len][len][number]", "ipack and iunpack disagree on the integer layout")
+            rec2 = lo is not None and hi is not None and ro is not None
+            ok2 = rec2 and (lo - start).is_zero() and (hi - end).is_zero() and (ro - end).is_zero()
+    why = "ipack and iunpack disagree on the integer layout"
+    verdict = ok and ok2
+    if model is not None and (not (rec1 and rec2) or verdict):
+        # shape not recognised: decided by round trips of model integers of every size class; shape recognised and consistent: the round
+        # trip (which also runs the digit conversions the symbolic reading takes as primitives) must hold as well, when it can be evaluated
+        try:
+            verdict, m_why = model.integers()
+            why = why + ": " + m_why
+        except AnalysisError:
+            if not (rec1 and rec2):
+                raise
+    ctx.check(verdict, "codec-arity", ip, ip.node, "ipack/iunpack agree on [1-byte len-of-len][len][number]", why)
+
+
+# ------------------------------------------------------------------------------------------------------------------
+# Finite-model evaluation of small pure functions.
+#
+# Some clauses are statements about what a small fold computes ("certainty 1 only if there is a verified response and no
+# failed one").  Such a function is decided by evaluating its syntax tree on a finite set of model inputs built from
+# builtin values (dicts of booleans, bytes, integers), following calls into helpers of the repository by interpreting
+# their syntax trees too.  Nothing of /repo is imported or run: the interpreter below walks the trees; the only code that
+# really executes is the Python builtins / struct / operator / functools on model values.  Whatever the interpreter does
+# not understand is reported as undecided, never as a verdict.
+# ------------------------------------------------------------------------------------------------------------------
+class _NoModel(Exception):
+    """syntax / callee outside the finite-model interpreter"""
+
+
+class _Raised(Exception):
+    """the interpreted code raises (exception class name kept)"""
+
+    def __init__(self, kind: str, exc: BaseException | None = None) -> None:
+        super().__init__(kind)
+        self.kind = kind
+        self.exc = exc
+
+
+class _Return(Exception):
+    def __init__(self, value) -> None:
+        super().__init__()
+        self.value = value
+
+
+class _Break(Exception):
+    pass
+
+
+class _Continue(Exception):
+    pass
+
+
+class _Obj:
+    """An opaque model object (self, an attestation): attributes only if given."""
+
+    def __init__(self, label: str, cls=None, **attrs) -> None:
+        self.label = label
+        self.cls = cls                                     # ClassInfo of the modelled instance, if any
+        self.attrs = dict(attrs)
+
+    def __repr__(self) -> str:
+        return f"<{self.label}>"
+
+
+import binascii as _binascii  # noqa: E402
+import builtins as _builtins  # noqa: E402
+import functools as _functools  # noqa: E402
+import itertools as _itertools  # noqa: E402
+import math as _math  # noqa: E402
+import operator as _operator  # noqa: E402
+import struct as _struct  # noqa: E402
+
+_MODEL_BUILTINS = {k: getattr(_builtins, k) for k in (
+    "len", "all", "any", "bool", "int", "float", "sum", "min", "max", "list", "tuple", "set", "frozenset", "dict", "sorted", "next", "iter", "zip",
+    "enumerate", "range", "reversed", "abs", "str", "bytes", "filter", "map", "divmod", "isinstance", "round", "pow", "ord", "chr", "repr",
+    "KeyError", "IndexError", "ValueError", "TypeError", "RuntimeError", "Exception", "StopIteration", "AssertionError", "NotImplementedError")}
+_MODEL_MODULES = {"binascii": _binascii, "struct": _struct, "operator": _operator, "functools": _functools, "itertools": _itertools, "math": _math}
+_MODEL_FROM = {"reduce": _functools.reduce, "and_": _operator.and_, "or_": _operator.or_, "mul": _operator.mul, "add": _operator.add,
+               "itemgetter": _operator.itemgetter, "chain": _itertools.chain, "islice": _itertools.islice, "prod": _math.prod,
+               "unpack": _struct.unpack, "pack": _struct.pack, "hexlify": _binascii.hexlify, "unhexlify": _binascii.unhexlify}
+_MODEL_VALUE_TYPES = (dict, list, tuple, set, frozenset, str, bytes, int, float, bool, range, type(None), type({}.items()), type({}.keys()),
+                      type({}.values()))
+_BINOPS = {ast.Add: _operator.add, ast.Sub: _operator.sub, ast.Mult: _operator.mul, ast.Div: _operator.truediv, ast.FloorDiv: _operator.floordiv,
+           ast.Mod: _operator.mod, ast.Pow: _operator.pow, ast.BitAnd: _operator.and_, ast.BitOr: _operator.or_, ast.BitXor: _operator.xor,
+           ast.LShift: _operator.lshift, ast.RShift: _operator.rshift}
+_DUNDER = {ast.Add: "__add__", ast.Sub: "__sub__", ast.Mult: "__mul__", ast.FloorDiv: "__floordiv__", ast.Div: "__truediv__", ast.Mod: "__mod__"}
+_CMPOPS = {ast.Eq: _operator.eq, ast.NotEq: _operator.ne, ast.Lt: _operator.lt, ast.LtE: _operator.le, ast.Gt: _operator.gt, ast.GtE: _operator.ge,
+           ast.Is: _operator.is_, ast.IsNot: _operator.is_not, ast.In: lambda a, b: a in b, ast.NotIn: lambda a, b: a not in b}
+
+
+_LOST: dict = {}
+
+
+def _lost_function(repo, module, name: str):
+    """
+    A module-level function that `module` imports from another module of the repository but that is no longer in that module's
+    (normalised) tree: the load-time inliner drops a NEW helper once its calls inside its own module are inlined, also when
+    other modules import it.  It is recovered from the defining module's source text.
+    """
+    imp = module.imports.get(name)
+    if imp is None or imp[1] is None:
+        return None
+    target = repo.modules.get(imp[0])                      # import targets are stored as absolute module names
+    if target is None or imp[1] in target.functions:
+        return None
+    key = (id(repo), target.relpath, imp[1])
+    if key not in _LOST:
+        found = None
+        try:
+            tree = ast.parse(target.src)
+            for st in tree.body:
+                if isinstance(st, (ast.FunctionDef, ast.AsyncFunctionDef)) and st.name == imp[1]:
+                    set_parents(tree)
+                    found = FuncInfo(name=st.name, qualname=st.name, node=st, module=target, cls=None)
+        except SyntaxError:
+            found = None
+        _LOST[key] = found
+    return _LOST[key]
+
+
+class _Model:
+    def __init__(self, repo, budget: int = 50000) -> None:
+        self.repo = repo
+        self.budget = budget
+        self.depth = 0
+        self._closure_fi = None
+
+    # ---- functions
+    def call(self, fi: FuncInfo, args: list, kwargs: dict | None = None):
+        """Interpret fi on model values (args include the receiver for methods / classmethods, not for staticmethods)."""
+        kwargs = dict(kwargs or {})
+        a = fi.node.args
+        if a.vararg or a.kwarg:
+            raise _NoModel(f"{fi.qualname}: *args / **kwargs")
+        names = [x.arg for x in a.posonlyargs + a.args]
+        if len(args) > len(names):
+            raise _NoModel(f"{fi.qualname}: too many arguments")
+        env = dict(zip(names, args))
+        defaults = dict(zip(names[len(names) - len(a.defaults):], a.defaults))
+        for k, d in zip(a.kwonlyargs, a.kw_defaults):
+            names.append(k.arg)
+            if d is not None:
+                defaults[k.arg] = d
+        for nme in names:
+            if nme in env:
+                continue
+            if nme in kwargs:
+                env[nme] = kwargs.pop(nme)
+            elif nme in defaults:
+                env[nme] = self.ev(defaults[nme], {}, fi)
+            else:
+                raise _NoModel(f"{fi.qualname}: parameter {nme} not bound")
+        if kwargs:
+            raise _NoModel(f"{fi.qualname}: unknown keyword")
+        self.depth += 1
+        if self.depth > 12:
+            raise _NoModel("call depth")
+        try:
+            is_gen = any(isinstance(x, (ast.Yield, ast.YieldFrom)) for x in walk_no_nested(fi.node, include_root_defs=False))
+            if is_gen:
+                env["@yields"] = []
+            try:
+                self.block(fi.node.body, env, fi)
+                ret = None
+            except _Return as r:
+                ret = r.value
+            return iter(env["@yields"]) if is_gen else ret
+        except (_NoModel, _Raised, _Return, _Break, _Continue):
+            raise
+        except RecursionError:
+            raise _NoModel("recursion depth") from None
+        except Exception as e:  # noqa: BLE001 - a construct the interpreter mishandles is "not interpreted", never a verdict
+            raise _NoModel(f"interpreter error {type(e).__name__}: {str(e)[:60]}") from None
+        finally:
+            self.depth -= 1
+
+    def _tick(self) -> None:
+        self.budget -= 1
+        if self.budget < 0:
+            raise _NoModel("step budget exhausted")
+
+    # ---- statements
+    def block(self, stmts, env, fi) -> None:
+        for s in stmts:
+            self.stmt(s, env, fi)
+
+    def stmt(self, s, env, fi) -> None:  # noqa: C901, PLR0912, PLR0915
+        self._tick()
+        if isinstance(s, (ast.Pass, ast.Import, ast.ImportFrom)):
+            return
+        if isinstance(s, ast.Expr):
+            if isinstance(s.value, ast.Constant):
+                return
+            if isinstance(s.value, ast.Yield):
+                env["@yields"].append(self.ev(s.value.value, env, fi) if s.value.value is not None else None)
+                return
+            if isinstance(s.value, ast.YieldFrom):
+                env["@yields"].extend(self.ev(s.value.value, env, fi))
+                return
+            self.ev(s.value, env, fi)
+            return
+        if isinstance(s, ast.Assign):
+            v = self.ev(s.value, env, fi)
+            for t in s.targets:
+                self.assign(t, v, env, fi)
+            return
+        if isinstance(s, ast.AnnAssign):
+            if s.value is not None:
+                self.assign(s.target, self.ev(s.value, env, fi), env, fi)
+            return
+        if isinstance(s, ast.AugAssign):
+            load = clone(s.target)
+            for x in ast.walk(load):
+                if hasattr(x, "ctx"):
+                    x.ctx = ast.Load()
+            cur = self.ev(load, env, fi)
+            op = _BINOPS.get(type(s.op))
+            if op is None:
+                raise _NoModel(f"operator in `{norm(s)[:50]}`")
+            rhs = self.ev(s.value, env, fi)
+            if isinstance(cur, list) and isinstance(s.op, ast.Add):
+                cur.extend(rhs)
+                new = cur
+            else:
+                new = self._apply(op, cur, rhs)
+            self.assign(s.target, new, env, fi)
+            return
+        if isinstance(s, ast.Return):
+            raise _Return(self.ev(s.value, env, fi) if s.value is not None else None)
+        if isinstance(s, ast.If):
+            self.block(s.body if self.ev(s.test, env, fi) else s.orelse, env, fi)
+            return
+        if isinstance(s, ast.For):
+            broke = False
+            for item in self._iter(self.ev(s.iter, env, fi)):
+                self._tick()
+                self.assign(s.target, item, env, fi)
+                try:
+                    self.block(s.body, env, fi)
+                except _Break:
+                    broke = True
+                    break
+                except _Continue:
+                    continue
+            if not broke:
+                self.block(s.orelse, env, fi)
+            return
+        if isinstance(s, ast.While):
+            broke = False
+            while self.ev(s.test, env, fi):
+                self._tick()
+                try:
+                    self.block(s.body, env, fi)
+                except _Break:
+                    broke = True
+                    break
+                except _Continue:
+                    continue
+            if not broke:
+                self.block(s.orelse, env, fi)
+            return
+        if isinstance(s, ast.Break):
+            raise _Break
+        if isinstance(s, ast.Continue):
+            raise _Continue
+        if isinstance(s, ast.Assert):
+            if not self.ev(s.test, env, fi):
+                raise _Raised("AssertionError")
+            return
+        if isinstance(s, ast.Raise):
+            kind = "Exception"
+            if s.exc is not None:
+                c = s.exc.func if isinstance(s.exc, ast.Call) else s.exc
+                kind = chain(c) or "Exception"
+            raise _Raised(kind.rsplit(".", 1)[-1])
+        if isinstance(s, ast.Try):
+            try:
+                try:
+                    self.block(s.body, env, fi)
+                except _Raised as r:
+                    for h in s.handlers:
+                        if self._handles(h, r.kind):
+                            if h.name:
+                                env[h.name] = r.exc if r.exc is not None else _Obj(r.kind)
+                            self.block(h.body, env, fi)
+                            break
+                    else:
+                        raise
+                else:
+                    self.block(s.orelse, env, fi)
+            finally:
+                self.block(s.finalbody, env, fi)
+            return
+        if isinstance(s, ast.Delete):
+            for t in s.targets:
+                if isinstance(t, ast.Name):
+                    env.pop(t.id, None)
+                elif isinstance(t, ast.Subscript):
+                    c = self.ev(t.value, env, fi)
+                    if not isinstance(c, (dict, list)):
+                        raise _NoModel("del on a non-container")
+                    self._apply(_operator.delitem, c, self._index(t.slice, env, fi))
+                else:
+                    raise _NoModel("del target")
+            return
+        if isinstance(s, (ast.FunctionDef, ast.AsyncFunctionDef)):
+            env[s.name] = ("@closure", s, env)
+            self._closure_fi = fi
+            return
+        if isinstance(s, ast.With):
+            for i in s.items:                             # `with <module-level lock>:` only
+                if i.optional_vars is not None or not (isinstance(i.context_expr, ast.Name) and i.context_expr.id not in env):
+                    raise _NoModel(f"statement `{head(s)[:60]}`")
+            self.block(s.body, env, fi)
+            return
+        raise _NoModel(f"statement `{head(s)[:60]}`")
+
+    @staticmethod
+    def _handles(h: ast.ExceptHandler, kind: str) -> bool:
+        if h.type is None:
+            return True
+        types = h.type.elts if isinstance(h.type, ast.Tuple) else [h.type]
+        raised = getattr(_builtins, kind, None)
+        for t in types:
+            nm = (chain(t) or "").rsplit(".", 1)[-1]
+            if nm == kind:
+                return True
+            caught = getattr(_builtins, nm, None)
+            if isinstance(raised, type) and isinstance(caught, type) and issubclass(raised, caught):
+                return True
+        return False
+
+    def assign(self, t, v, env, fi) -> None:
+        if isinstance(t, ast.Name):
+            env[t.id] = v
+        elif isinstance(t, (ast.Tuple, ast.List)):
+            if any(isinstance(x, ast.Starred) for x in t.elts):
+                raise _NoModel("starred target")
+            vals = list(self._iter(v))
+            if len(vals) != len(t.elts):
+                raise _Raised("ValueError")
+            for x, y in zip(t.elts, vals):
+                self.assign(x, y, env, fi)
+        elif isinstance(t, ast.Subscript):
+            c = self.ev(t.value, env, fi)
+            if not isinstance(c, (dict, list)):
+                raise _NoModel("item store into a non-container")
+            self._apply(_operator.setitem, c, self._index(t.slice, env, fi), v)
+        elif isinstance(t, ast.Attribute):
+            o = self.ev(t.value, env, fi)
+            if not isinstance(o, _Obj):
+                raise _NoModel("attribute store")
+            o.attrs[t.attr] = v
+        else:
+            raise _NoModel("assignment target")
+
+    # ---- expressions
+    @staticmethod
+    def _iter(v):
+        if isinstance(v, _Obj) or not hasattr(v, "__iter__"):
+            raise _NoModel("iteration over a non-model value")
+        return v
+
+    @staticmethod
+    def _apply(f, *args, **kw):
+        try:
+            return f(*args, **kw)
+        except (_NoModel, _Raised, _Return, _Break, _Continue):
+            raise
+        except Exception as e:  # noqa: BLE001 - the interpreted code would raise this
+            raise _Raised(type(e).__name__, e) from None
+
+    def _index(self, sl, env, fi):
+        if isinstance(sl, ast.Slice):
+            return slice(*(self.ev(x, env, fi) if x is not None else None for x in (sl.lower, sl.upper, sl.step)))
+        return self.ev(sl, env, fi)
+
+    def _args(self, call, env, fi):
+        args = []
+        for a in call.args:
+            if isinstance(a, ast.Starred):
+                args.extend(self._iter(self.ev(a.value, env, fi)))
+            else:
+                args.append(self.ev(a, env, fi))
+        kw = {}
+        for k in call.keywords:
+            if k.arg is None:
+                d = self.ev(k.value, env, fi)
+                if not isinstance(d, dict) or not all(isinstance(x, str) for x in d):
+                    raise _NoModel("**kwargs call")
+                kw.update(d)
+                continue
+            kw[k.arg] = self.ev(k.value, env, fi)
+        return args, kw
+
+    def _callable(self, f):
+        """A model callable: Python builtin, or a closure / lambda of the interpreted code wrapped into a Python function."""
+        if isinstance(f, tuple) and f and f[0] == "@lambda":
+            _, node, env, fi = f
+            params = [x.arg for x in node.args.posonlyargs + node.args.args]
+
+            def run(*a):
+                if len(a) != len(params) or node.args.vararg or node.args.kwarg or node.args.kwonlyargs:
+                    raise _NoModel("lambda arity")
+                return self.ev(node.body, {**env, **dict(zip(params, a))}, fi)
+            return run
+        if isinstance(f, tuple) and f and f[0] == "@func":
+            return lambda *a, **k: self.call(f[1], list(a), k)
+        if _is_class(f):
+            return lambda *a, **k: self.instantiate(f[1], list(a), k)
+        if isinstance(f, tuple) and f and f[0] == "@closure":
+            def run_closure(*a):
+                _, node, cenv = f
+                params = [x.arg for x in node.args.posonlyargs + node.args.args]
+                if len(a) != len(params):
+                    raise _NoModel("closure arity")
+                try:
+                    self.block(node.body, {**cenv, **dict(zip(params, a))}, self._closure_fi)
+                except _Return as r:
+                    return r.value
+                return None
+            return run_closure
+        return f
+
+    def ev(self, e, env, fi):  # noqa: C901, PLR0911, PLR0912, PLR0915
+        self._tick()
+        if isinstance(e, ast.Constant):
+            return e.value
+        if isinstance(e, ast.Name):
+            if e.id in env:
+                return env[e.id]
+            if e.id in _MODEL_BUILTINS:
+                return _MODEL_BUILTINS[e.id]
+            if e.id in _MODEL_MODULES:
+                return _MODEL_MODULES[e.id]
+            r = self.repo.resolve_name(fi.module, e.id)
+            if isinstance(r, tuple) and r and r[0] == "const":
+                return self.ev(r[2], {}, fi)
+            if isinstance(r, FuncInfo):
+                return ("@func", r)
+            if r is not None and not isinstance(r, tuple) and hasattr(r, "mro") and hasattr(r, "methods"):
+                return ("@class", r)
+            lost = _lost_function(self.repo, fi.module, e.id)
+            if lost is not None:
+                return ("@func", lost)
+            if e.id in _MODEL_FROM:
+                return _MODEL_FROM[e.id]
+            raise _NoModel(f"name `{e.id}`")
+        if isinstance(e, (ast.Tuple, ast.List, ast.Set)):
+            out = []
+            for x in e.elts:
+                if isinstance(x, ast.Starred):
+                    out.extend(self._iter(self.ev(x.value, env, fi)))
+                else:
+                    out.append(self.ev(x, env, fi))
+            return tuple(out) if isinstance(e, ast.Tuple) else out if isinstance(e, ast.List) else set(out)
+        if isinstance(e, ast.Dict):
+            d = {}
+            for k, v in zip(e.keys, e.values):
+                if k is None:
+                    d.update(self.ev(v, env, fi))
+                else:
+                    d[self.ev(k, env, fi)] = self.ev(v, env, fi)
+            return d
+        if isinstance(e, ast.BoolOp):
+            v = None
+            for x in e.values:
+                v = self.ev(x, env, fi)
+                if bool(v) != isinstance(e.op, ast.And):
+                    return v
+            return v
+        if isinstance(e, ast.UnaryOp):
+            v = self.ev(e.operand, env, fi)
+            if isinstance(e.op, ast.Not):
+                return not v
+            return self._apply({ast.USub: _operator.neg, ast.UAdd: _operator.pos, ast.Invert: _operator.invert}[type(e.op)], v)
+        if isinstance(e, ast.BinOp):
+            op = _BINOPS.get(type(e.op))
+            if op is None:
+                raise _NoModel("operator")
+            le, ri = self.ev(e.left, env, fi), self.ev(e.right, env, fi)
+            if isinstance(le, _Obj) or isinstance(ri, _Obj):
+                dn = _DUNDER.get(type(e.op))
+                t = le.cls.lookup(dn) if isinstance(le, _Obj) and le.cls is not None and dn else None
+                if t is None:
+                    raise _NoModel("arithmetic on an opaque object")
+                return self.call(t, [le, ri], {})
+            return self._apply(op, le, ri)
+        if isinstance(e, ast.Compare):
+            left = self.ev(e.left, env, fi)
+            for op, r in zip(e.ops, e.comparators):
+                right = self.ev(r, env, fi)
+                if isinstance(left, _Obj) and isinstance(op, (ast.Eq, ast.NotEq)) and left.cls is not None and left.cls.lookup("__eq__") is not None:
+                    res = bool(self.call(left.cls.lookup("__eq__"), [left, right], {})) == isinstance(op, ast.Eq)
+                elif (isinstance(left, _Obj) or isinstance(right, _Obj)) and not isinstance(op, (ast.Is, ast.IsNot, ast.Eq, ast.NotEq, ast.In, ast.NotIn)):
+                    raise _NoModel("ordering of opaque objects")
+                else:
+                    res = self._apply(_CMPOPS[type(op)], left, right)
+                if not res:
+                    return False
+                left = right
+            return True
+        if isinstance(e, ast.IfExp):
+            return self.ev(e.body if self.ev(e.test, env, fi) else e.orelse, env, fi)
+        if isinstance(e, ast.NamedExpr):
+            v = self.ev(e.value, env, fi)
+            env[e.target.id] = v
+            return v
+        if isinstance(e, ast.Subscript):
+            c = self.ev(e.value, env, fi)
+            if isinstance(c, _Obj):
+                raise _NoModel("subscript of an opaque object")
+            return self._apply(_operator.getitem, c, self._index(e.slice, env, fi))
+        if isinstance(e, ast.Attribute):
+            o = self.ev(e.value, env, fi)
+            if isinstance(o, _Obj) or _is_class(o):
+                if isinstance(o, _Obj) and e.attr in o.attrs:
+                    return o.attrs[e.attr]
+                ci = o.cls if isinstance(o, _Obj) else o[1]
+                if ci is not None:
+                    cx = ci.lookup_attr(e.attr)
+                    if cx is not None:
+                        return self.ev(cx, {}, self._class_context(ci, fi))
+                    t = ci.lookup(e.attr)
+                    if t is not None and "property" in t.decorator_names() and isinstance(o, _Obj):
+                        return self.call(t, [o], {})
+                    if t is not None:
+                        raise _NoModel(f"method object .{e.attr}")
+                raise _NoModel(f"attribute .{e.attr} of {o!r}")
+            if any(o is m for m in _MODEL_MODULES.values()):
+                return getattr(o, e.attr)
+            if any(o is t for t in (int, bytes, str, dict, float, list, tuple)) and not e.attr.startswith("_"):
+                return self._apply(getattr, o, e.attr)
+            if isinstance(o, _MODEL_VALUE_TYPES) and not e.attr.startswith("_"):
+                return self._apply(getattr, o, e.attr)
+            raise _NoModel(f"attribute .{e.attr}")
+        if isinstance(e, ast.Lambda):
+            return ("@lambda", e, env, fi)
+        if isinstance(e, (ast.ListComp, ast.SetComp, ast.GeneratorExp, ast.DictComp)):
+            out: list = []
+            self._comp(e, 0, dict(env), fi, out)
+            if isinstance(e, ast.ListComp):
+                return out
+            if isinstance(e, ast.SetComp):
+                return set(out)
+            if isinstance(e, ast.DictComp):
+                return dict(out)
+            return iter(out)
+        if isinstance(e, ast.Call):
+            return self._call(e, env, fi)
+        if isinstance(e, ast.JoinedStr):
+            out = []
+            for part in e.values:
+                if isinstance(part, ast.Constant):
+                    out.append(str(part.value))
+                    continue
+                v = self.ev(part.value, env, fi)
+                if isinstance(v, _Obj) or _is_class(v):
+                    out.append(repr(v))
+                    continue
+                if part.conversion in (115, 114, 97):
+                    v = {115: str, 114: repr, 97: ascii}[part.conversion](v)
+                spec = self.ev(part.format_spec, env, fi) if part.format_spec is not None else ""
+                out.append(self._apply(format, v, spec))
+            return "".join(out)
+        raise _NoModel(f"expression `{norm(e)[:60]}`")
+
+    def _comp(self, e, i, env, fi, out) -> None:
+        if i == len(e.generators):
+            out.append((self.ev(e.key, env, fi), self.ev(e.value, env, fi)) if isinstance(e, ast.DictComp) else self.ev(e.elt, env, fi))
+            return
+        g = e.generators[i]
+        if g.is_async:
+            raise _NoModel("async comprehension")
+        for item in self._iter(self.ev(g.iter, env, fi)):
+            self._tick()
+            self.assign(g.target, item, env, fi)
+            if all(self.ev(c, env, fi) for c in g.ifs):
+                self._comp(e, i + 1, env, fi, out)
+
+    def instantiate(self, ci, args, kw):
+        obj = _Obj(ci.name, cls=ci)
+        init = ci.lookup("__init__")
+        if init is not None:
+            self.call(init, [obj, *args], kw)
+        elif args or kw:
+            raise _NoModel(f"constructor of {ci.name}")
+        return obj
+
+    def _class_context(self, ci, fi: FuncInfo) -> FuncInfo:
+        return next(iter(ci.methods.values()), fi)
+
+    def _bound(self, rv, t: FuncInfo, args: list) -> list:
+        """argument list for calling method t through receiver value rv (an object or a class value)"""
+        decs = t.decorator_names()
+        if "staticmethod" in decs:
+            return args
+        if "classmethod" in decs:
+            return [("@class", rv.cls) if isinstance(rv, _Obj) else rv, *args]
+        return [rv, *args] if isinstance(rv, _Obj) else args
+
+    def _call(self, e: ast.Call, env, fi):  # noqa: C901, PLR0911, PLR0912, PLR0915
+        f = e.func
+        c = chain(f) or ""
+        if c == "cast" and len(e.args) == 2:
+            return self.ev(e.args[1], env, fi)
+        if ".logger." in "." + c or c.startswith("logging."):
+            return None
+        if isinstance(f, ast.Attribute) and f.attr in ("acquire", "release") and isinstance(f.value, ast.Name) and f.value.id not in env and not e.args:
+            return True                                   # a module-level lock: no effect on the values computed
+        if c in ("setattr", "getattr", "hasattr") and c not in env and len(e.args) in (2, 3) and not e.keywords:
+            vals = [self.ev(a, env, fi) for a in e.args]
+            if isinstance(vals[0], _Obj) and isinstance(vals[1], str):
+                if c == "setattr" and len(vals) == 3:
+                    vals[0].attrs[vals[1]] = vals[2]
+                    return None
+                if c == "hasattr" and len(vals) == 2:
+                    return vals[1] in vals[0].attrs
+                if c == "getattr":
+                    if vals[1] in vals[0].attrs:
+                        return vals[0].attrs[vals[1]]
+                    if len(vals) == 3:
+                        return vals[2]
+                    return self.ev(ast.Attribute(value=e.args[0], attr=vals[1], ctx=ast.Load()), env, fi)
+            raise _NoModel(f"{c}() on a non-model object")
+        if c == "isinstance" and len(e.args) == 2 and "isinstance" not in env:
+            v, k = self.ev(e.args[0], env, fi), self.ev(e.args[1], env, fi)
+            ks = list(k) if isinstance(k, tuple) and not _is_class(k) else [k]
+            for one in ks:
+                if _is_class(one):
+                    if isinstance(v, _Obj) and v.cls is not None and any(x.node is one[1].node for x in v.cls.mro()):
+                        return True
+                elif isinstance(one, type):
+                    if not isinstance(v, _Obj) and not _is_class(v) and isinstance(v, one):
+                        return True
+                else:
+                    raise _NoModel("isinstance() on a non-class")
+            return False
+        # super().method(...)
+        if isinstance(f, ast.Attribute) and isinstance(f.value, ast.Call) and chain(f.value.func) == "super" and not f.value.args and fi.cls is not None:
+            me = env.get("self", env.get("cls"))
+            dyn = me.cls if isinstance(me, _Obj) else me[1] if _is_class(me) else None
+            mro = (dyn or fi.cls).mro()
+            idx = next((i for i, k in enumerate(mro) if k.node is fi.cls.node), None)
+            t = next((k.methods[f.attr] for k in mro[idx + 1:] if f.attr in k.methods), None) if idx is not None else None
+            if t is None:
+                raise _NoModel(f"super().{f.attr}")
+            args, kw = self._args(e, env, fi)
+            return self.call(t, self._bound(me, t, args), kw)
+        if isinstance(f, ast.Attribute):
+            rv = self.ev(f.value, env, fi)
+            if isinstance(rv, _Obj) or _is_class(rv):
+                ci = rv.cls if isinstance(rv, _Obj) else rv[1]
+                t = ci.lookup(f.attr) if ci is not None else None
+                if t is None and isinstance(rv, _Obj) and ci is None and fi.cls is not None and isinstance(f.value, ast.Name) and f.value.id in ("self", "cls"):
+                    t = fi.cls.lookup(f.attr)
+                if t is not None:
+                    args, kw = self._args(e, env, fi)
+                    return self.call(t, self._bound(rv, t, args), kw)
+                if isinstance(rv, _Obj) and f.attr in rv.attrs:
+                    fv = rv.attrs[f.attr]
+                else:
+                    raise _NoModel(f"method .{f.attr} of {rv!r}")
+            elif any(rv is m for m in _MODEL_MODULES.values()):
+                fv = getattr(rv, f.attr)
+            elif any(rv is t for t in (int, bytes, str, dict, float, list, tuple)) and not f.attr.startswith("_"):
+                fv = self._apply(getattr, rv, f.attr)
+            elif isinstance(rv, _MODEL_VALUE_TYPES) and not f.attr.startswith("_"):
+                fv = self._apply(getattr, rv, f.attr)
+            elif hasattr(rv, "__next__") and f.attr in ("__next__",):
+                fv = getattr(rv, f.attr)
+            else:
+                raise _NoModel(f"method .{f.attr}")
+        else:
+            fv = self.ev(f, env, fi)
+        args, kw = self._args(e, env, fi)
+        if isinstance(fv, tuple) and fv and fv[0] == "@func":
+            return self.call(fv[1], args, kw)
+        if _is_class(fv):
+            return self.instantiate(fv[1], args, kw)
+        if isinstance(fv, tuple) and fv and fv[0] == "@closure":
+            _, node, cenv = fv
+            params = [x.arg for x in node.args.posonlyargs + node.args.args]
+            if len(args) != len(params) or kw:
+                raise _NoModel("closure arity")
+            inner = {**cenv, **dict(zip(params, args))}
+            try:
+                self.block(node.body, inner, fi)
+            except _Return as r:
+                return r.value
+            return None
+        if isinstance(fv, tuple) and fv and fv[0] == "@lambda":
+            return self._callable(fv)(*args)
+        if callable(fv) and not isinstance(fv, _Obj):
+            args = [self._callable(a) for a in args]
+            kw = {k: self._callable(v) for k, v in kw.items()}
+            if any(isinstance(a, _Obj) or _is_class(a) for a in args) and fv in (str, repr, bytes, int, float, len, sorted, min, max, sum, abs):
+                raise _NoModel(f"builtin {getattr(fv, '__name__', fv)}() on an opaque object")
+            return self._apply(fv, *args, **kw)
+        raise _NoModel(f"call `{norm(e)[:60]}`")
+
+
+def _is_class(v) -> bool:
+    return isinstance(v, tuple) and len(v) == 2 and v[0] == "@class"
+
+
+# ------------------------------------------------------------------------------------------------------------------
+# Sites: a construct of interest inside an anchor function or inside a NEW helper it (transitively) calls.
+#
+# A frame is a function analysed in the context of the call that reached it: the helper's parameters stand for the
+# caller's argument expressions, the facts that dominate the call hold inside the helper.  Expressions are compared in
+# canonical form (cast() stripped, pure single-assignment locals expanded, parameters replaced by the caller's expressions),
+# so a guard / lookup key / removal that moved into a helper, a hoisted alias or a generator is the same construct.
+# ------------------------------------------------------------------------------------------------------------------
+_V = "__the_value__"
+_PURE_FUNCS = {"str", "bytes", "len", "int", "sha1", "sha256", "sha512", "hexlify", "unhexlify", "tuple", "bool"}
+_PURE_ATTRS = {"encode", "decode", "digest", "hexdigest", "hex", "id_from_hash", "id_from_address"}
+
+
+def _is_new(fi: FuncInfo) -> bool:
+    """Not part of the reviewed tree: introduced by the change under analysis."""
+    tab = load_table().get(fi.module.relpath)
+    return tab is None or fi.qualname not in tab
+
+
+def _pure_value(e: ast.AST) -> bool:
+    for x in ast.walk(e):
+        if isinstance(x, (ast.Await, ast.Yield, ast.YieldFrom, ast.NamedExpr)):
+            return False
+        if isinstance(x, ast.Call):
+            f = x.func
+            if isinstance(f, ast.Name) and f.id in _PURE_FUNCS | {"cast"}:
+                continue
+            if isinstance(f, ast.Attribute) and f.attr in _PURE_ATTRS:
+                continue
+            return False
+    return True
+
+
+class _Frame:
+    def __init__(self, fi: FuncInfo, bind: dict | None = None, raw: dict | None = None, caller: "_Frame | None" = None, call: ast.Call | None = None) -> None:
+        self.fi = fi
+        self.bind: dict[str, ast.AST] = bind or {}          # parameter -> canonical expression in the outermost caller's terms
+        self.raw: dict[str, ast.AST] = raw or {}            # parameter -> the caller's argument node (with parent links)
+        self.caller = caller
+        self.call = call
+
+    def depth(self) -> int:
+        return 0 if self.caller is None else 1 + self.caller.depth()
+
+
+def _canon(frame: _Frame, e: ast.AST, extra: dict | None = None, depth: int = 6) -> ast.AST:
+    """Canonical copy of e (see above).  `extra` binds further names (a comprehension / lambda variable -> placeholder)."""
+    fi = frame.fi
+
+    def go(n, d, shadow):  # noqa: PLR0911
+        if isinstance(n, list):
+            return [go(x, d, shadow) for x in n]
+        if not isinstance(n, ast.AST):
+            return n
+        if isinstance(n, ast.Call) and isinstance(n.func, ast.Name) and n.func.id == "cast" and len(n.args) == 2 and not n.keywords:
+            return go(n.args[1], d, shadow)
+        if isinstance(n, ast.Name):
+            if isinstance(n.ctx, ast.Load) and n.id not in shadow:
+                if extra and n.id in extra:
+                    return extra[n.id]
+                if n.id in frame.bind:
+                    return frame.bind[n.id]
+                if d > 0:
+                    sd = single_def(fi, n.id)
+                    if sd is not None and sd[1] is None and _pure_value(sd[0]):
+                        return go(sd[0], d - 1, shadow)
+                    if sd is not None and sd[1] is not None and isinstance(strip_cast(sd[0]), ast.Call) and _pure_value(sd[0]):
+                        return ast.Subscript(value=go(sd[0], d - 1, shadow), slice=ast.Constant(value=sd[1]), ctx=ast.Load())
+            return ast.Name(id=n.id, ctx=ast.Load())
+        if isinstance(n, _COMPS):
+            bound: set[str] = set()
+            for g in n.generators:
+                bound |= names_in(g.target)
+            shadow = shadow | bound
+        elif isinstance(n, ast.Lambda):
+            shadow = shadow | _lambda_params(n)
+        new = n.__class__()
+        for f in n._fields:
+            if hasattr(n, f):
+                setattr(new, f, go(getattr(n, f), d, shadow))
+        return new
+    return go(e, depth, frozenset())
+
+
+def _ctext(frame: _Frame, e: ast.AST, extra: dict | None = None) -> str:
+    return norm(_canon(frame, e, extra))
+
+
+def _bind_call(ctx: Ctx, frame: _Frame, call: ast.Call, target: FuncInfo) -> _Frame | None:
+    a = target.node.args
+    if a.vararg or a.kwarg or any(isinstance(x, ast.Starred) for x in call.args) or any(k.arg is None for k in call.keywords):
+        return None
+    names = [x.arg for x in a.posonlyargs + a.args]
+    raw: dict[str, ast.AST] = {}
+    idx = 0
+    if target.cls is not None and "staticmethod" not in target.decorator_names() and names:
+        callee = getattr(target, "_c18_callee_expr", None)
+        callee = callee if callee is not None else call.func
+        if isinstance(callee, ast.Attribute):
+            raw[names[0]] = callee.value
+        idx = 1
+    for x in call.args:
+        if idx >= len(names):
+            return None
+        raw[names[idx]] = x
+        idx += 1
+    allowed = set(names) | {x.arg for x in a.kwonlyargs}
+    for k in call.keywords:
+        if k.arg not in allowed:
+            return None
+        raw[k.arg] = k.value
+    bind = {k: _canon(frame, v) for k, v in raw.items()}
+    return _Frame(target, bind, raw, frame, call)
+
+
+def _callee_exprs(fi: FuncInfo, f: ast.AST, depth: int = 4) -> list[ast.AST]:
+    """
+    The expressions a callee expression may denote: itself, or - for a callable picked from a dict / tuple / list display
+    (dispatch table, directly or through a local), a conditional expression or a local alias - every candidate.
+    """
+    f = strip_cast(f)
+    if depth <= 0:
+        return [f]
+    if isinstance(f, ast.Name):
+        sd = single_def(fi, f.id)
+        if sd is not None and sd[1] is None and isinstance(strip_cast(sd[0]), (ast.Subscript, ast.IfExp, ast.Attribute, ast.Name, ast.Call, ast.Dict, ast.Tuple, ast.List)):
+            v = strip_cast(sd[0])
+            if isinstance(v, ast.Call) and not (isinstance(v.func, ast.Attribute) and v.func.attr == "get"):
+                return [f]
+            return _callee_exprs(fi, v, depth - 1)
+        return [f]
+    if isinstance(f, ast.IfExp):
+        return _callee_exprs(fi, f.body, depth - 1) + _callee_exprs(fi, f.orelse, depth - 1)
+    table = None
+    if isinstance(f, ast.Subscript):
+        table = f.value
+    elif isinstance(f, ast.Call) and isinstance(f.func, ast.Attribute) and f.func.attr == "get" and f.args:
+        table = f.func.value
+        extra = f.args[1:2]
+    if table is not None:
+        t = strip_cast(table)
+        if isinstance(t, ast.Name):
+            sd = single_def(fi, t.id)
+            t = strip_cast(sd[0]) if sd is not None and sd[1] is None else t
+        vals = list(t.values) if isinstance(t, ast.Dict) else list(t.elts) if isinstance(t, (ast.Tuple, ast.List)) else None
+        if vals is not None:
+            out = []
+            for v in vals + (extra if isinstance(f, ast.Call) else []):
+                out.extend(_callee_exprs(fi, v, depth - 1))
+            return out
+    return [f]
+
+
+def _new_callees(ctx: Ctx, frame: _Frame, call: ast.Call) -> list[FuncInfo]:
+    """NEW helpers a call may reach (resolved; by unique name among the new functions when the receiver's type is unknown)."""
+    out: list[FuncInfo] = []
+    for f in _callee_exprs(frame.fi, call.func):
+        probe = call if f is strip_cast(call.func) else ast.Call(func=f, args=call.args, keywords=call.keywords)
+        try:
+            targets = [t for t in ctx.repo.resolve_call(frame.fi, probe) if _is_new(t)]
+        except Exception:  # noqa: BLE001
+            targets = []
+        if not targets and isinstance(f, ast.Attribute) and not (isinstance(f.value, ast.Name) and f.value.id in ("self", "cls")):
+            named = [g for g in ctx.repo.all_functions() if g.name == f.attr and g.cls is not None and _is_new(g)]
+            if len(named) == 1:
+                targets = named
+        for t in targets:
+            if t.node is not frame.fi.node and t not in out:
+                t._c18_callee_expr = f
+                out.append(t)
+    return out
+
+
+def _frames(ctx: Ctx, root: FuncInfo, max_depth: int = 3) -> list[_Frame]:
+    """The anchor's frame and the frames of every NEW helper reachable from it (each call site gives its own frame)."""
+    out = [_Frame(root)]
+    i = 0
+    while i < len(out):
+        fr = out[i]
+        i += 1
+        if fr.depth() >= max_depth:
+            continue
+        for c in walk_no_nested(fr.fi.node):
+            if isinstance(c, ast.Call):
+                for t in _new_callees(ctx, fr, c):
+                    nf = _bind_call(ctx, fr, c, t)
+                    if nf is not None and len(out) < 40:
+                        out.append(nf)
+    return out
+
+
+def _context_facts(site: ast.AST) -> list[Fact]:
+    """Facts that hold whenever `site` is evaluated, from the expressions around it: and/or, conditional expressions, comprehension filters."""
+    out: list[Fact] = []
+    cur, p = site, parent(site)
+    while p is not None and not isinstance(p, ast.stmt):
+        if isinstance(p, ast.BoolOp):
+            idx = next((i for i, v in enumerate(p.values) if v is cur), None)
+            if idx:
+                for v in p.values[:idx]:
+                    out.extend(_atoms_with_polarity(v, isinstance(p.op, ast.And)))
+        elif isinstance(p, ast.IfExp):
+            if cur is p.body:
+                out.extend(_atoms_with_polarity(p.test, True))
+            elif cur is p.orelse:
+                out.extend(_atoms_with_polarity(p.test, False))
+        elif isinstance(p, _COMPS) and not isinstance(cur, ast.comprehension):
+            for g in p.generators:                        # the element expression: every filter passed
+                for c in g.ifs:
+                    out.extend(_atoms_with_polarity(c, True))
+        elif isinstance(p, ast.comprehension):
+            comp = parent(p)
+            gens = comp.generators if comp is not None else [p]
+            for g in gens:
+                if g is p:
+                    break
+                for c in g.ifs:
+                    out.extend(_atoms_with_polarity(c, True))
+            if cur is not p.iter and cur is not p.target:
+                for c in p.ifs:
+                    if c is cur:
+                        break
+                    out.extend(_atoms_with_polarity(c, True))
+        elif isinstance(p, ast.Lambda):
+            break
+        cur, p = p, parent(p)
+    return out
+
+
+def _site_facts(ctx: Ctx, frame: _Frame, site: ast.AST) -> list[Fact]:
+    """Canonical facts that hold at a site: dominating conditions of its function, expression context, and what dominates the call chain."""
+    raw = list(_context_facts(site))
+    try:
+        raw.extend(facts_at(ctx.cfg(frame.fi), site))
+    except AnalysisError:
+        pass
+    out = []
+    for f in raw:
+        out.append(Fact(f.op, _canon(frame, f.left), _canon(frame, f.right) if f.right is not None else None, f.pos, f.atom))
+    if frame.caller is not None and frame.call is not None:
+        out.extend(_site_facts(ctx, frame.caller, frame.call))
+    return out
+
+
+def _renamed_facts(frame: _Frame, conds, var: str, pol: bool = True) -> list[Fact]:
+    out = []
+    for c in conds:
+        for f in _atoms_with_polarity(c, pol):
+            ex = {var: ast.Name(id=_V, ctx=ast.Load())}
+            out.append(Fact(f.op, _canon(frame, f.left, ex), _canon(frame, f.right, ex) if f.right is not None else None, f.pos, f.atom))
+    return out
+
+
+def _elem_facts(ctx: Ctx, frame: _Frame, it: ast.AST, depth: int = 5) -> list[Fact]:  # noqa: C901, PLR0911, PLR0912
+    """Facts about every element an iterable expression yields (the element is the placeholder _V)."""
+    it = strip_cast(it)
+    if depth <= 0:
+        return []
+    if isinstance(it, (ast.ListComp, ast.GeneratorExp, ast.SetComp)):
+        g0 = it.generators[0]
+        if isinstance(it.elt, ast.Name) and isinstance(g0.target, ast.Name) and it.elt.id == g0.target.id and len(it.generators) == 1:
+            return _renamed_facts(frame, g0.ifs, g0.target.id) + _elem_facts(ctx, frame, g0.iter, depth - 1)
+        return []
+    if isinstance(it, ast.Call):
+        c = chain(it.func) or ""
+        if c == "filter" and len(it.args) == 2 and not it.keywords:
+            pred, src = it.args
+            pred = strip_cast(pred)
+            if isinstance(pred, ast.Name):
+                sd = single_def(frame.fi, pred.id)
+                pred = strip_cast(sd[0]) if sd is not None and sd[1] is None else pred
+            out = _elem_facts(ctx, frame, src, depth - 1)
+            if isinstance(pred, ast.Lambda) and len(_lambda_params(pred)) == 1 and len(pred.args.args) == 1:
+                out = out + _renamed_facts(frame, [pred.body], pred.args.args[0].arg)
+            return out
+        if c in ("list", "tuple", "sorted", "iter", "reversed", "set", "frozenset") and len(it.args) >= 1:
+            return _elem_facts(ctx, frame, it.args[0], depth - 1)
+        out = None
+        for t in _new_callees(ctx, frame, it):
+            nf = _bind_call(ctx, frame, it, t)
+            if nf is None:
+                return []
+            got = _produced_facts(ctx, nf, depth - 1)
+            out = got if out is None else [f for f in out if any(_fkey(f) == _fkey(g) and f.pos == g.pos for g in got)]
+        return out or []
+    if isinstance(it, ast.Subscript) and isinstance(it.slice, ast.Slice):
+        return _elem_facts(ctx, frame, it.value, depth - 1)
+    if isinstance(it, ast.IfExp):
+        a, b = _elem_facts(ctx, frame, it.body, depth - 1), _elem_facts(ctx, frame, it.orelse, depth - 1)
+        if isinstance(strip_cast(it.orelse), (ast.List, ast.Tuple)) and not strip_cast(it.orelse).elts:
+            return a
+        if isinstance(strip_cast(it.body), (ast.List, ast.Tuple)) and not strip_cast(it.body).elts:
+            return b
+        return [f for f in a if any(_fkey(f) == _fkey(g) and f.pos == g.pos for g in b)]
+    if isinstance(it, (ast.List, ast.Tuple)) and len(it.elts) == 1 and not isinstance(it.elts[0], ast.Starred):
+        return _value_facts(ctx, frame, it.elts[0], depth - 1) + _about(ctx, frame, it.elts[0])
+    if isinstance(it, ast.Name):
+        if it.id in frame.raw and frame.caller is not None:
+            return _elem_facts(ctx, frame.caller, frame.raw[it.id], depth - 1)
+        defs = local_defs(frame.fi, it.id)
+        if len(defs) != 1 or defs[0][1] is None or defs[0][2] is not None:
+            return []
+        val = strip_cast(defs[0][1])
+        empty = (isinstance(val, (ast.List, ast.Tuple)) and not val.elts) or \
+            (isinstance(val, ast.Call) and chain(val.func) == "list" and not val.args and not val.keywords)
+        if not empty:
+            return _elem_facts(ctx, frame, val, depth - 1)
+        # a list filled by append() calls: every appended value has the facts of its site
+        apps = list(calls(frame.fi, f"{it.id}.append"))
+        others = [c for c in calls(frame.fi) if isinstance(c.func, ast.Attribute) and isinstance(c.func.value, ast.Name) and c.func.value.id == it.id
+                  and c.func.attr in ("extend", "insert", "__iadd__")]
+        augs = [x for x in walk_no_nested(frame.fi.node) if isinstance(x, ast.AugAssign) and isinstance(x.target, ast.Name) and x.target.id == it.id]
+        if apps and not others and not augs and all(len(c.args) == 1 for c in apps):
+            res = None
+            for c in apps:
+                got = _value_facts(ctx, frame, c.args[0], depth - 1) + _about(ctx, frame, c.args[0])
+                res = got if res is None else [f for f in res if any(_fkey(f) == _fkey(g) and f.pos == g.pos for g in got)]
+            return res or []
+        return []
+    return []
+
+
+def _about(ctx: Ctx, frame: _Frame, e: ast.AST) -> list[Fact]:
+    """Site facts that speak about the value of expression e, rewritten over the placeholder _V."""
+    txt = _ctext(frame, e)
+    out = []
+    for f in _site_facts(ctx, frame, e):
+        le, ri = _rewrite_text(f.left, txt), _rewrite_text(f.right, txt) if f.right is not None else None
+        if le is not f.left or (ri is not None and ri is not f.right):
+            out.append(Fact(f.op, le, ri, f.pos, f.atom))
+    return out
+
+
+def _rewrite_text(e: ast.AST, txt: str) -> ast.AST:
+    """e with every sub-expression whose text is txt replaced by the placeholder (e itself when nothing matched)."""
+    hits = [x for x in ast.walk(e) if isinstance(x, ast.expr) and norm(x) == txt]
+    if not hits:
+        return e
+    out = e
+    for h in hits[:1]:
+        out = _replace(out, h, ast.Name(id=_V, ctx=ast.Load()))
+    while True:
+        more = [x for x in ast.walk(out) if isinstance(x, ast.expr) and not (isinstance(x, ast.Name) and x.id == _V) and norm(x) == txt]
+        if not more:
+            return out
+        out = _replace(out, more[0], ast.Name(id=_V, ctx=ast.Load()))
+
+
+def _produced_facts(ctx: Ctx, frame: _Frame, depth: int) -> list[Fact]:
+    """Facts about every element a helper produces: its yields, or the iterable it returns."""
+    per = []
+    fn = frame.fi.node
+    ys = [x for x in walk_no_nested(fn) if isinstance(x, ast.Yield) and x.value is not None]
+    yf = [x for x in walk_no_nested(fn) if isinstance(x, ast.YieldFrom)]
+    if ys or yf:
+        for y in ys:
+            per.append(_value_facts(ctx, frame, y.value, depth) + _about(ctx, frame, y.value))
+        for y in yf:
+            per.append(_elem_facts(ctx, frame, y.value, depth))
+    else:
+        for r in [x for x in walk_no_nested(fn) if isinstance(x, ast.Return) and x.value is not None]:
+            v = strip_cast(r.value)
+            if isinstance(v, (ast.List, ast.Tuple)) and not v.elts:
+                continue
+            per.append(_elem_facts(ctx, frame, r.value, depth))
+    if not per:
+        return []
+    out = per[0]
+    for other in per[1:]:
+        out = [f for f in out if any(_fkey(f) == _fkey(g) and f.pos == g.pos for g in other)]
+    return out
+
+
+def _binding_of(fi: FuncInfo, use: ast.Name):
+    """How the name read at `use` is bound: ('comp', comprehension) | ('for', For stmt) | ('assign', value, index) | ('param',) | None."""
+    cur, p = use, parent(use)
+    while p is not None and not isinstance(p, ast.stmt):
+        if isinstance(p, _COMPS):
+            for g in p.generators:
+                if use.id in names_in(g.target) and cur is not g:
+                    return ("comp", g)
+            # `cur` may be one of the generators: names bound by EARLIER generators are visible in it
+            if isinstance(cur, ast.comprehension):
+                for g in p.generators:
+                    if g is cur:
+                        break
+                    if use.id in names_in(g.target):
+                        return ("comp", g)
+        cur, p = p, parent(p)
+    defs = local_defs(fi, use.id)
+    if use.id in fi.params():
+        return ("param",) if not defs else None
+    if len(defs) > 1 and _CTX is not None:
+        defs = _reaching(fi, use, defs)
+    if len(defs) == 1:
+        st, val, idx = defs[0]
+        if isinstance(st, (ast.For, ast.AsyncFor)):
+            return ("for", st)
+        if val is not None:
+            return ("assign", val, idx)
+    return None
+
+
+_CTX: Ctx | None = None          # the rule context of the running check (for CFGs in helpers that only get a FuncInfo)
+
+
+def _use(ctx: Ctx) -> None:
+    global _CTX  # noqa: PLW0603
+    _CTX = ctx
+
+
+def _reaching(fi: FuncInfo, use: ast.AST, defs: list) -> list:
+    """The definitions of a local that can reach `use` (paths that do not pass another definition of it)."""
+    try:
+        cfg = _CTX.cfg(fi)
+        use_nodes = set(cfg.nodes_for(use))
+        if not use_nodes:
+            return defs
+        out = []
+        for st, val, idx in defs:
+            dn = cfg.nodes_for(st)
+            others = {n for s2, _, _ in defs if s2 is not st for n in cfg.nodes_for(s2)} - use_nodes - set(dn)
+            starts = [v for d in dn for v, lab in d.succ if lab != "exc"]
+            if use_nodes & set(dn) and isinstance(st, (ast.For, ast.AsyncFor, ast.While)):
+                out.append((st, val, idx))
+                continue
+            r = cfg.reach(starts, cut_nodes=others)
+            if use_nodes & r:
+                out.append((st, val, idx))
+        return out
+    except AnalysisError:
+        return defs
+
+
+def _target_elem(target: ast.AST, it: ast.AST, name: str):
+    """The iterable whose ELEMENTS `name` ranges over, for `for <target> in <it>`: sees through enumerate()."""
+    it = strip_cast(it)
+    if isinstance(target, ast.Name) and target.id == name:
+        return it
+    if isinstance(target, (ast.Tuple, ast.List)) and len(target.elts) == 2 and isinstance(target.elts[1], ast.Name) and target.elts[1].id == name \
+            and isinstance(it, ast.Call) and chain(it.func) == "enumerate" and it.args:
+        return it.args[0]
+    return None
+
+
+def _value_facts(ctx: Ctx, frame: _Frame, e: ast.AST, depth: int = 5) -> list[Fact]:  # noqa: PLR0911
+    """Facts about the value of expression e that follow from where the value comes from (filtered iterable, helper, alias)."""
+    e = strip_cast(e)
+    if depth <= 0:
+        return []
+    if isinstance(e, ast.Name):
+        b = _binding_of(frame.fi, e)
+        if b is None:
+            return []
+        if b[0] == "comp":
+            src = _target_elem(b[1].target, b[1].iter, e.id)
+            return _elem_facts(ctx, frame, src, depth - 1) if src is not None else []
+        if b[0] == "for":
+            src = _target_elem(b[1].target, b[1].iter, e.id)
+            return _elem_facts(ctx, frame, src, depth - 1) if src is not None else []
+        if b[0] == "param":
+            if e.id in frame.raw and frame.caller is not None:
+                return _value_facts(ctx, frame.caller, frame.raw[e.id], depth - 1) + _about(ctx, frame.caller, frame.raw[e.id])
+            return []
+        if b[0] == "assign" and b[2] is None:
+            return _value_facts(ctx, frame, b[1], depth - 1)
+        return []
+    if isinstance(e, ast.Call) and chain(e.func) == "next" and e.args:
+        return _elem_facts(ctx, frame, e.args[0], depth - 1)
+    if isinstance(e, ast.Subscript) and not isinstance(e.slice, ast.Slice):
+        return _elem_facts(ctx, frame, e.value, depth - 1)
+    if isinstance(e, ast.IfExp):
+        a, b = _value_facts(ctx, frame, e.body, depth - 1), _value_facts(ctx, frame, e.orelse, depth - 1)
+        if isinstance(strip_cast(e.orelse), ast.Constant) and strip_cast(e.orelse).value is None:
+            return a
+        if isinstance(strip_cast(e.body), ast.Constant) and strip_cast(e.body).value is None:
+            return b
+        return [f for f in a if any(_fkey(f) == _fkey(g) and f.pos == g.pos for g in b)]
+    return []
+
+
+def _holds_eq(ctx: Ctx, frame: _Frame, value: ast.AST, site: ast.AST, shape, want: str) -> bool:
+    """
+    Is `shape(value) == want` known at site?  shape(text) gives the text of the compared term for a value spelled `text`
+    (identity for a plain equality, lambda t: f"sha1({t}).digest()" for a hash).  `want` is canonical text.
+    """
+    vt = _ctext(frame, value)
+    if shape(vt) == want:
+        return True
+    for f in _site_facts(ctx, frame, site):
+        if f.op == "eq" and f.pos and f.right is not None and {norm(f.left), norm(f.right)} == {shape(vt), want}:
+            return True
+    for f in _value_facts(ctx, frame, value):
+        if f.op == "eq" and f.pos and f.right is not None and {norm(f.left), norm(f.right)} == {shape(_V), want}:
+            return True
+    return False
+
+
+def _check_answer_counted(ctx: Ctx) -> None:
+    """
+    BonehExactAlgorithm.process_challenge_response(aggregate, challenge, response) is evaluated (finite-model interpretation,
+    the module-level helper followed) for each possible decoded answer 0, 1, 2, 3 on aggregates with different counts: the
+    aggregate the caller passed in (the community ignores the return value) must afterwards count exactly one more answer in
+    exactly that answer's bucket.  The profile is reconstructed by counting; bucket 3 ("neither 0, 1 nor 2") is the one no
+    value's profile contains, so counting it is what makes a value with another profile score zero.
+    """
+    fi = ctx.repo.method("BonehExactAlgorithm", "process_challenge_response", "ipv8/attestation/wallet/bonehexact/algorithm.py")
+    if len(fi.params()) != 4:
+        raise AnalysisError(f"anchor-lost: {fi.qualname} no longer takes (aggregate, challenge, response)")
+    bad = None
+    runs = 0
+    try:
+        for start in ((0, 0, 0, 0), (2, 0, 1, 0), (1, 3, 2, 1)):
+            for answer in range(4):
+                agg = dict(enumerate(start))
+                try:
+                    ret = _Model(ctx.repo).call(fi, [_Obj("self", cls=fi.cls), agg, b"challenge", bytes([answer])])
+                except _Raised as r:
+                    ret = None
+                    agg = f"raises {r.kind}"
+                runs += 1
+                want = dict(enumerate(start))
+                want[answer] += 1
+                if agg != want or (isinstance(ret, dict) and ret != want):
+                    bad = bad or (answer, dict(enumerate(start)), agg)
+    except _NoModel as e:
+        raise AnalysisError(f"undecided: {fi.qualname}: finite-model evaluation stopped at {e}") from None
+    why = ""
+    if bad is not None:
+        why = (f"BonehExactAlgorithm.process_challenge_response does not count every answer exactly once in its own bucket: for the decoded answer {bad[0]} the "
+               f"aggregate {bad[1]} becomes {bad[2]}. The bit-pair profile is reconstructed by counting answers; an answer that is dropped (in particular 3 = 'not a "
+               "bit-pair sum', the bucket no value's profile contains) lets a prover hide the bit-pairs that contradict the claimed value, and a value with another "
+               "profile gets a non-zero score")
+    ctx.check(bad is None, "protocol-shape", fi, fi.node, "every challenge answer (0, 1, 2, 3) is counted once in its bucket of the aggregate", why,
+              facts=[f"{runs} model runs"])
+
+
+def _check_range_certainty(ctx: Ctx, pb: FuncInfo) -> None:
+    """
+    certainty(value, aggregate) is evaluated (finite-model interpretation, helpers followed) on every aggregate with zero to
+    three recorded check results, for an attestation entry that is None or an object, and for both claimed values: it must be
+    "in range" exactly when at least one response was recorded and none of them failed.  How the fold is spelled (loop,
+    all()/sum()/reduce, a helper, keys()+lookup, continue guards) is irrelevant.
+    """
+    if len(pb.params()) != 3:
+        raise AnalysisError(f"anchor-lost: {pb.qualname} no longer takes (value, aggregate)")
+    keys = (b"challenge-1", b"challenge-2", b"challenge-3")
+    vacuous = wrong = None
+    runs = 0
+    try:
+        for att in (None, "obj"):
+            for nresp in range(4):
+                for verdicts in itertools.product((True, False), repeat=nresp):
+                    for claimed in (True, False):
+                        agg = {"attestation": None if att is None else _Obj("attestation")}
+                        agg.update(zip(keys, verdicts))
+                        try:
+                            got = _Model(ctx.repo).call(pb, [_Obj("self", cls=pb.cls), _struct.pack(">?", claimed), agg])
+                        except _Raised as r:
+                            got = f"raises {r.kind}"
+                        runs += 1
+                        in_range = nresp >= 1 and all(verdicts)
+                        want = 1.0 if in_range == claimed else 0.0
+                        if isinstance(got, (int, float)) and not isinstance(got, _Obj) and got == want:
+                            continue
+                        if nresp == 0 and claimed and vacuous is None:
+                            vacuous = got
+                        elif wrong is None:
+                            wrong = (dict(zip(keys, verdicts)), claimed, got, want)
+    except _NoModel as e:
+        raise AnalysisError(f"undecided: {pb.qualname}: finite-model evaluation stopped at {e}") from None
+    ok = vacuous is None and wrong is None
+    if vacuous is not None:
+        why = ("PengBaoRangeAlgorithm.certainty accepts vacuously: with no verified challenge response the aggregate yields certainty "
+               f"{vacuous}, so a proof built for a value outside the range is accepted before any answer was checked")
+    elif wrong is not None:
+        why = (f"PengBaoRangeAlgorithm.certainty is not 'at least one response and every response verified': for the recorded check results "
+               f"{list(wrong[0].values())} and the claim in-range={wrong[1]} it yields {wrong[2]} instead of {wrong[3]}, so a failed range check is "
+               "accepted (or a fully verified proof rejected)")
+    else:
+        why = ""
+    ctx.check(ok, "protocol-shape", pb, pb.node, "range certainty is 1 only with at least one response and all responses verified", why,
+              facts=[f"{runs} model aggregates evaluated"])
 
 
 def rule_protocol_shape(ctx: Ctx) -> None:
@@ -1239,39 +3372,66 @@ def rule_protocol_shape(ctx: Ctx) -> None:
     a range proof is accepted only on the evidence of at least one verified response, and an incoming attestation is
     matched to the request whose global time it echoes (each request has its own one-time key).
     """
+    _use(ctx)
     repo = ctx.repo
     pb = repo.method("PengBaoRangeAlgorithm", "certainty", "ipv8/attestation/wallet/pengbaorange/algorithm.py")
-    agg = pb.params()[2]
-    # symbolic evaluation for an aggregate that holds no response (only the 'attestation' key, or nothing): the verdict must be "not in range"
-    seeds = [v for _, v, _ in local_defs(pb, "in_range") if v is not None]
-
-    def more_than_one(v) -> bool:
-        if not isinstance(v, ast.Compare) or len(v.ops) != 1:
-            return False
-        f = fact_of(v, True)
-        if f.op != "lt":
-            return False
-        if f.pos:       # K < len(agg) with K >= 1
-            return norm(f.right) == f"len({agg})" and const_value(f.left) == 1
-        return norm(f.left) == f"len({agg})" and const_value(f.right) == 2          # not len(agg) < 2
-    nonvacuous = any(more_than_one(v) for v in seeds)
-    vacuous_all = any(isinstance(n, ast.Call) and chain(n.func) == "all" for v in seeds for n in ast.walk(v)) and not nonvacuous
-    conj = any(isinstance(s_, ast.AugAssign) and isinstance(s_.op, ast.BitAnd) and norm(s_.target) == "in_range" for s_ in walk_no_nested(pb.node)) or \
-        any(isinstance(v, ast.BinOp) and isinstance(v.op, ast.BitAnd) and "in_range" in (norm(v.left), norm(v.right)) or
-            isinstance(v, ast.BoolOp) and isinstance(v.op, ast.And) and "in_range" in [norm(x) for x in v.values] for v in seeds)
-    ctx.check(nonvacuous and conj and not vacuous_all, "protocol-shape", pb, pb.node, "range certainty is 1 only with at least one response and all responses verified",
-              "PengBaoRangeAlgorithm.certainty accepts vacuously: with no verified challenge response the aggregate yields certainty 1.0, so a proof built for a value outside "
-              "the range is accepted before any answer was checked")
+    _check_range_certainty(ctx, pb)
+    _check_answer_counted(ctx)
     oc = repo.method("AttestationCommunity", "on_attestation_chunk", "ipv8/attestation/wallet/community.py")
-    comps = [n for n in ast.walk(oc.node) if isinstance(n, ast.ListComp) and "self.allowed_attestations.get(" in norm(n.generators[0].iter)]
-    ok = False
-    if len(comps) == 1:
-        tgt = norm(comps[0].generators[0].target)
-        for i in comps[0].generators[0].ifs:
-            f = fact_of(i, True)
-            if f.op == "eq" and f.pos and {norm(f.left), norm(f.right)} == {tgt, "str(dist.global_time).encode()"}:
-                ok = True
-    ctx.check(ok, "protocol-shape", oc, comps[0] if comps else oc.node, "an incoming attestation is matched to the request whose global time it echoes",
+    _check_request_selection(ctx, oc)
+
+
+def _origin(frame: _Frame, e: ast.AST, depth: int = 6):
+    """(frame, node) where the value of e is written down: through cast(), single-assignment aliases and helper parameters."""
+    while depth > 0:
+        depth -= 1
+        e = strip_cast(e)
+        if not isinstance(e, ast.Name):
+            break
+        if e.id in frame.raw and frame.caller is not None:
+            frame, e = frame.caller, frame.raw[e.id]
+            continue
+        sd = single_def(frame.fi, e.id)
+        if sd is None or sd[1] is not None:
+            break
+        e = sd[0]
+    return frame, e
+
+
+def _check_request_selection(ctx: Ctx, oc: FuncInfo) -> None:
+    """
+    Every ReceiveAttestationRequestCache id on_attestation_chunk builds ("receive-request-attestation", peer.mid + G), in its own
+    body or in a helper, uses a G that is known to equal the echoed global time str(dist.global_time).encode(): written as
+    that expression, guarded by the comparison (if / continue / comprehension filter / filter() / conditional expression, in
+    the caller or the helper), or drawn from a collection that was filtered by it.
+    """
+    params = oc.params()
+    if len(params) < 4:
+        raise AnalysisError(f"anchor-lost: {oc.qualname} no longer takes (peer, dist, payload)")
+    peer_p, dist_p = params[1], params[2]
+    want = f"str({dist_p}.global_time).encode()"
+    sites = []
+    for fr in _frames(ctx, oc):
+        for c in walk_no_nested(fr.fi.node):
+            if isinstance(c, ast.Call) and (chain(c.func) or "").rsplit(".", 1)[-1] in ("id_from_address", "id_from_hash") and len(c.args) == 2 and not c.keywords:
+                pre = _canon(fr, c.args[0])
+                pv = const_value(pre)
+                if not isinstance(pv, str):
+                    pv = ctx.repo.resolve_const(fr.fi.module, pre, fr.fi.cls)
+                if pv == "receive-request-attestation":
+                    sites.append((fr, c))
+    ctx.anchor(sites, "on_attestation_chunk builds the id of the ReceiveAttestationRequestCache it looks up")
+    bad = None
+    for fr, c in sites:
+        kf, key = _origin(fr, c.args[1])
+        if not (isinstance(key, ast.BinOp) and isinstance(key.op, ast.Add)):
+            raise AnalysisError(f"undecided: {fr.fi.qualname}: request cache key `{norm(key)[:60]}` is not <mid> + <global time>")
+        if _ctext(kf, key.left) != f"{peer_p}.mid":
+            raise AnalysisError(f"undecided: {fr.fi.qualname}: request cache key `{norm(key)[:60]}` does not start with {peer_p}.mid")
+        ok = _holds_eq(ctx, kf, key.right, key.right, lambda t: t, want) or (kf is fr and _holds_eq(ctx, fr, key.right, c, lambda t: t, want))
+        if not ok and bad is None:
+            bad = c
+    ctx.check(bad is None, "protocol-shape", oc, bad if bad is not None else sites[0][1], "an incoming attestation is matched to the request whose global time it echoes",
               "on_attestation_chunk no longer selects the outstanding request by the echoed global time: with two requests in flight the attestation is stored under another "
               "request's attribute name and one-time key, and the honest owner's answers score 0 for the true value")
 
@@ -1314,6 +3474,7 @@ def rule_range_binding(ctx: Ctx) -> None:
     for another interval / another value is accepted.  Equations are compared as exponent vectors over the commitments,
     so `c1 * g^(a-1) == c`, hoisted aliases or a helper for g^m * h^r are the same equation.
     """
+    _use(ctx)
     repo = ctx.repo
     fi = repo.method("PengBaoPublicData", "check", "ipv8/attestation/wallet/pengbaorange/structs.py")
     p = fi.params()
@@ -1321,37 +3482,76 @@ def rule_range_binding(ctx: Ctx) -> None:
         raise AnalysisError(f"anchor-lost: {fi.qualname} no longer takes (a, b, s, t, x, y, u, v)")
     pn = dict(zip(p[1:], ("a", "b", "s", "t", "x", "y", "u", "v")))
     paths = _paths(fi)
-    if len(paths) != 1:
-        raise AnalysisError(f"undecided: {fi.qualname}: {len(paths)} return paths")
-    conj = _and_parts(paths[0][1])
-    relations: list[dict[str, Poly]] = []
-    positive: set[str] = set()
-    subproofs: set[tuple] = set()
-    for c in conj:
-        if isinstance(c, ast.Compare) and len(c.ops) == 1:
-            f = fact_of(c, True)
-            if f.op == "eq" and f.pos:
-                try:
-                    le, ri = _group_term(f.left, pn), _group_term(f.right, pn)
-                except AnalysisError:
-                    continue
-                rel = dict(le)
-                for k, v in ri.items():
-                    rel[k] = rel.get(k, Poly()) - v
-                relations.append({k: v for k, v in rel.items() if not v.is_zero()})
-            elif f.op == "lt" and f.pos and const_value(f.left) == 0 and isinstance(f.right, ast.Name):
-                positive.add(pn.get(f.right.id, f.right.id))
-            elif f.op == "lt" and not f.pos and const_value(f.right) == 1 and isinstance(f.left, ast.Name):
-                positive.add(pn.get(f.left.id, f.left.id))
-        elif isinstance(c, ast.Call) and isinstance(c.func, ast.Attribute) and c.func.attr == "check" and not c.keywords:
-            subproofs.add((_last(c.func.value), tuple(_last(a) for a in c.args)))
-    if not relations:
-        raise AnalysisError(f"anchor-lost: {fi.qualname}: no verification equation recognised in `{norm(paths[0][1])[:80]}`")
+    # the proof is accepted on the paths that can return something truthy: on each of them the path condition (early `return False`
+    # guards, decision helpers) and the returned conjunction together are what was required
+    accepting = [(st, ret) for st, ret in paths if not (isinstance(ret, ast.Constant) and not ret.value)]
+    if not accepting or len(accepting) > 16:
+        raise AnalysisError(f"undecided: {fi.qualname}: {len(accepting)} accepting return paths")
+
+    def required(st, ret) -> list[ast.AST]:
+        out = []
+        for e, pol in st.conds:
+            for f in _atoms_with_polarity(e, pol):
+                if f.op == "truthy" and f.pos:
+                    out.extend(_and_parts(f.left))
+                elif f.op == "eq" and f.pos and f.right is not None:
+                    out.append(ast.Compare(left=f.left, ops=[ast.Eq()], comparators=[f.right]))
+                elif f.op == "lt" and f.right is not None:
+                    out.append(ast.Compare(left=f.left, ops=[ast.Lt() if f.pos else ast.GtE()], comparators=[f.right]))
+        return out + _and_parts(ret)
+
+    per_path = []
+    for st, ret in accepting:
+        relations: list[dict[str, Poly]] = []
+        positive: set[str] = set()
+        subproofs: set[tuple] = set()
+        reqs = []
+        for c in required(st, ret):
+            # `not (x != y)`, `not x <= 0`: read through the negation
+            if isinstance(c, ast.UnaryOp) and isinstance(c.op, ast.Not):
+                for f in _atoms_with_polarity(c, True):
+                    if f.op == "eq" and f.pos and f.right is not None:
+                        reqs.append(ast.Compare(left=f.left, ops=[ast.Eq()], comparators=[f.right]))
+                    elif f.op == "lt" and f.right is not None:
+                        reqs.append(ast.Compare(left=f.left, ops=[ast.Lt() if f.pos else ast.GtE()], comparators=[f.right]))
+                    elif f.op == "truthy" and f.pos:
+                        reqs.append(f.left)
+            elif isinstance(c, ast.Call) and chain(c.func) == "bool" and len(c.args) == 1:
+                reqs.extend(_and_parts(c.args[0]))
+            else:
+                reqs.append(c)
+        for c in reqs:
+            if isinstance(c, ast.Compare) and len(c.ops) == 1:
+                f = fact_of(c, True)
+                if f.op == "eq" and f.pos:
+                    try:
+                        le, ri = _group_term(f.left, pn), _group_term(f.right, pn)
+                    except AnalysisError:
+                        continue
+                    rel = dict(le)
+                    for k, v in ri.items():
+                        rel[k] = rel.get(k, Poly()) - v
+                    relations.append({k: v for k, v in rel.items() if not v.is_zero()})
+                elif f.op == "lt" and ((f.pos and const_value(f.left) == 0) or (not f.pos and const_value(f.right) == 1)):
+                    tgt = f.right if f.pos else f.left                 # 0 < t  /  not t < 1
+                    names = [tgt]
+                    if isinstance(tgt, ast.Call) and chain(tgt.func) == "min" and tgt.args and not tgt.keywords and not any(isinstance(a, ast.Starred) for a in tgt.args):
+                        names = (_literal_elements(tgt.args[0]) or []) if len(tgt.args) == 1 else list(tgt.args)
+                    for nm in names:                                    # min(x, y) > 0 is x > 0 and y > 0
+                        if isinstance(nm, ast.Name):
+                            positive.add(pn.get(nm.id, nm.id))
+            elif isinstance(c, ast.Call) and isinstance(c.func, ast.Attribute) and c.func.attr == "check" and not c.keywords:
+                subproofs.add((_last(c.func.value), tuple(_last(a) for a in c.args)))
+        per_path.append((relations, positive, subproofs))
+    if not any(r for r, _, _ in per_path):
+        raise AnalysisError(f"anchor-lost: {fi.qualname}: no verification equation recognised in `{norm(accepting[0][1])[:80]}`")
 
     def has(want: dict[str, Poly]) -> bool:
         neg = {k: -v for k, v in want.items()}
-        return any(r.keys() == want.keys() and (all((r[k] - want[k]).is_zero() for k in want) or all((r[k] - neg[k]).is_zero() for k in want))
-                   for r in relations)
+        return all(any(r.keys() == want.keys() and (all((r[k] - want[k]).is_zero() for k in want) or all((r[k] - neg[k]).is_zero() for k in want))
+                       for r in relations) for relations, _, _ in per_path)
+    positive = set.intersection(*[p for _, p, _ in per_path])
+    subproofs = set.intersection(*[sp for _, _, sp in per_path])
     one = Poly.const(1)
     A, B, S, T, X, Y, U, W = (Poly.var(n) for n in ("a", "b", "s", "t", "x", "y", "u", "v"))
     equations = [
@@ -1387,37 +3587,288 @@ def rule_response_consumed(ctx: Ctx) -> None:
     entry it was looked up under must be popped (before, or on every way out afterwards).  Otherwise a duplicated datagram
     is counted twice, the profile over-counts a class and the true value scores 0.
     """
+    _use(ctx)
     repo = ctx.repo
     fi = repo.method("AttestationCommunity", "on_challenge_response", "ipv8/attestation/wallet/community.py")
-    cfg = ctx.cfg(fi)
     payload = fi.params()[-1]
+    want_hash = f"{payload}.challenge_hash"
+    frames = _frames(ctx, fi)
 
-    def is_pending_id(call: ast.Call) -> bool:
-        txt = " ".join(norm(resolve(fi, a.value if isinstance(a, ast.Starred) else a)) for a in call.args)
-        return "'proving-hash'" in txt and f"{payload}.challenge_hash" in txt
-    uses = [c for c in calls(fi) if call_name(c) in ("process_challenge_response", "process_honesty_challenge")]
-    ctx.anchor(uses, "on_challenge_response feeds the response into process_challenge_response / process_honesty_challenge")
-    pops = [c for c in calls(fi) if chain(c.func) == "self.request_cache.pop" and is_pending_id(c)]
-    pop_nodes = [n for c in pops for n in cfg.nodes_for(c)]
-    for u in uses:
-        ok = bool(pop_nodes)
-        for n in cfg.nodes_for(u):
+    def is_pending_id(fr: _Frame, call: ast.Call) -> bool:
+        txt = " ".join(_ctext(fr, a.value if isinstance(a, ast.Starred) else a) for a in call.args)
+        if "'proving-hash'" in txt and want_hash in txt:
+            return True
+        # pop(entry.prefix, entry.number) of the entry that was looked up under the pending id
+        if len(call.args) == 2 and all(isinstance(strip_cast(a), ast.Attribute) for a in call.args):
+            a0, a1 = (strip_cast(a) for a in call.args)
+            if (a0.attr, a1.attr) == ("prefix", "number") and norm(a0.value) == norm(a1.value):
+                src = resolve(fr.fi, a0.value)
+                if isinstance(src, ast.Call) and (chain(src.func) or "").endswith("request_cache.get"):
+                    return is_pending_id(fr, src)
+        return False
+
+    def is_pop(fr: _Frame, c: ast.Call) -> bool:
+        ch = _ctext(fr, c.func)
+        return ch.endswith("request_cache.pop") and is_pending_id(fr, c)
+
+    kinds: dict[int, str | None] = {}
+
+    def pop_nodes(fr: _Frame):
+        """(nodes that pop when they complete, [(node, result name) that pop when their result is not None / truthy])"""
+        cfg = ctx.cfg(fr.fi)
+        always, cond = [], []
+        for c in walk_no_nested(fr.fi.node):
+            if not isinstance(c, ast.Call):
+                continue
+            if is_pop(fr, c):
+                always.extend(cfg.nodes_for(c))
+                continue
+            for child in frames:
+                if child.caller is fr and child.call is c:
+                    k = consume_kind(child)
+                    if k == "always":
+                        always.extend(cfg.nodes_for(c))
+                    elif k == "truthy":
+                        st = enclosing_stmt(c)
+                        name = None
+                        if isinstance(st, (ast.Assign, ast.AnnAssign)) and strip_cast(st.value) is c:
+                            tg = st.targets[0] if isinstance(st, ast.Assign) and len(st.targets) == 1 else getattr(st, "target", None)
+                            if isinstance(tg, ast.Name):
+                                name = tg.id
+                        cond.append((cfg.nodes_for(c), name, c))
+        return always, cond
+
+    def consume_kind(fr: _Frame):
+        if id(fr) in kinds:
+            return kinds[id(fr)]
+        kinds[id(fr)] = None                                  # recursion guard
+        cfg = ctx.cfg(fr.fi)
+        always, _ = pop_nodes(fr)
+        kind = None
+        if always:
+            if cfg.must_complete(cfg.exit, always):
+                kind = "always"
+            else:
+                kind = "truthy"
+                for r in walk_no_nested(fr.fi.node):
+                    if isinstance(r, ast.Return) and r.value is not None and const_value(strip_cast(r.value)) not in (None, False):
+                        if not all(n in always or cfg.must_complete(n, always) for n in cfg.nodes_for(r) if cfg.reachable(n)):
+                            kind = None
+        kinds[id(fr)] = kind
+        return kind
+
+    def result_known(fr: _Frame, site: ast.AST, name: str | None, call: ast.Call) -> bool:
+        """the helper's result is known to be not None / truthy at site"""
+        for f in _site_facts(ctx, fr, site):
+            le = norm(f.left)
+            if name is not None and le == name or le == _ctext(fr, call):
+                if (f.op == "truthy" and f.pos) or (f.op == "is" and not f.pos and f.right is not None and const_value(f.right) is None):
+                    return True
+        return False
+
+    def consumed_at(fr: _Frame, node: ast.AST) -> bool:
+        cfg = ctx.cfg(fr.fi)
+        always, cond = pop_nodes(fr)
+        usable = [n for ns, name, c in cond if result_known(fr, node, name, c) for n in ns]
+        ok = True
+        for n in cfg.nodes_for(node):
             if not cfg.reachable(n):
                 continue
-            ok = ok and (cfg.must_complete(n, pop_nodes) or cfg.always_followed_by(n, pop_nodes))
+            here = bool(always) and (cfg.must_complete(n, always) or cfg.always_followed_by(n, always))
+            if not here and usable:
+                here = cfg.must_complete(n, always + usable)
+            ok = ok and here
+        if ok:
+            return True
+        if fr.caller is not None and fr.call is not None:
+            return consumed_at(fr.caller, fr.call)
+        return False
+
+    uses = [(fr, c) for fr in frames for c in calls(fr.fi) if call_name(c) in ("process_challenge_response", "process_honesty_challenge")]
+    ctx.anchor(uses, "on_challenge_response feeds the response into process_challenge_response / process_honesty_challenge")
+    for fr, u in uses:
+        ok = consumed_at(fr, u)
         ctx.check(ok, "response-consumed", fi, enclosing_stmt(u), f"{call_name(u)}: the pending challenge is popped on every path that processes the response",
                   f"on_challenge_response hands the response to {call_name(u)} on a path that does not pop the PendingChallengeCache entry "
                   f"('proving-hash', {payload}.challenge_hash) - not before it and not on every way out (early return): a duplicated / replayed response is "
                   "counted again in the relativity map, the bit-pair profile over-counts and the honest prover's true value scores 0")
+    _check_answered_challenge(ctx, fi, frames, want_hash)
+
+
+def _check_answered_challenge(ctx: Ctx, fi: FuncInfo, frames: list, want_hash: str) -> None:  # noqa: C901, PLR0912, PLR0915
+    """
+    ProvingAttestationCache.challenges is the backlog of challenges that still have to be answered; hashed_challenges the hashes
+    still outstanding.  An answer names its challenge by hash only, and answers are datagrams (any order).  The entry that
+    on_challenge_response (or a helper it calls) drops from the backlog must therefore be SELECTED BY THAT HASH: the removed
+    element c is known to satisfy sha1(c).digest() == payload.challenge_hash (guard, filter, next() over a filtered generator,
+    index of such an element, rebuild of the list without it).  A positional removal drops whatever is at the head: after one
+    overtaking answer the answered challenge stays in the backlog, is sent and counted a second time, and the true value's
+    profile is exceeded (score 0).
+    """
+    def is_backlog(fr: _Frame, e: ast.AST) -> bool:
+        t = _ctext(fr, e)
+        return t.endswith(".challenges") or t == "challenges" and False
+
+    def sha(t: str) -> str:
+        return f"sha1({t}).digest()"
+
+    def backlog_texts(fr: _Frame, site: ast.AST) -> list[str]:
+        """spellings of the backlog list at this site: its canonical text and the local names that alias it"""
+        out = set()
+        for n in ast.walk(fr.fi.node):
+            if isinstance(n, (ast.Attribute, ast.Name)) and isinstance(getattr(n, "ctx", None), ast.Load) and is_backlog(fr, n):
+                out.add(norm(n))
+                out.add(_ctext(fr, n))
+        return sorted(out)
+
+    def elem_selected(fr: _Frame, x: ast.AST, site: ast.AST) -> bool:
+        return _holds_eq(ctx, fr, x, site, sha, want_hash)
+
+    def index_selected(fr: _Frame, i: ast.AST, site: ast.AST):
+        """True / False / None (undecided) for a positional removal at index expression i"""
+        i = strip_cast(i)
+        if isinstance(i, ast.Constant) or (isinstance(i, ast.UnaryOp) and isinstance(i.operand, ast.Constant)):
+            return False
+        if isinstance(i, ast.Name):
+            # `if sha1(backlog[i]).digest() == hash:` around the removal
+            for t in backlog_texts(fr, site):
+                for f in _site_facts(ctx, fr, site):
+                    if f.op == "eq" and f.pos and f.right is not None and {norm(f.left), norm(f.right)} == {sha(f"{t}[{_ctext(fr, i)}]"), want_hash}:
+                        return True
+                    if f.op == "eq" and f.pos and f.right is not None and {norm(f.left), norm(f.right)} == {sha(f"{t}[{i.id}]"), want_hash}:
+                        return True
+            b = _binding_of(fr.fi, i)
+            if b is not None and b[0] in ("for", "comp"):
+                tgt, it = b[1].target, strip_cast(b[1].iter)
+                if isinstance(tgt, (ast.Tuple, ast.List)) and len(tgt.elts) == 2 and isinstance(tgt.elts[0], ast.Name) and tgt.elts[0].id == i.id \
+                        and isinstance(it, ast.Call) and chain(it.func) == "enumerate" and it.args and is_backlog(fr, strip_slice(it.args[0])):
+                    return elem_selected(fr, tgt.elts[1], site)
+                return None
+            if b is not None and b[0] == "assign" and b[2] is None:
+                return index_selected(fr, b[1], site)
+            return None
+        if isinstance(i, ast.Call) and isinstance(i.func, ast.Attribute) and i.func.attr == "index" and len(i.args) == 1 and is_backlog(fr, i.func.value):
+            return elem_selected(fr, i.args[0], site)
+        if isinstance(i, ast.Call) and isinstance(i.func, ast.Attribute) and i.func.attr == "index" and len(i.args) == 1:
+            # [sha1(c).digest() for c in backlog].index(hash): the position of the element with that hash
+            recv = strip_cast(i.func.value)
+            if isinstance(recv, ast.Name):
+                sd = single_def(fr.fi, recv.id)
+                recv = strip_cast(sd[0]) if sd is not None and sd[1] is None else recv
+            if isinstance(recv, (ast.ListComp, ast.GeneratorExp)) or (isinstance(recv, ast.Call) and chain(recv.func) in ("list", "tuple") and recv.args):
+                comp = recv if isinstance(recv, (ast.ListComp, ast.GeneratorExp)) else strip_cast(recv.args[0])
+                if isinstance(comp, (ast.ListComp, ast.GeneratorExp)) and len(comp.generators) == 1 and not comp.generators[0].ifs \
+                        and isinstance(comp.generators[0].target, ast.Name) and is_backlog(fr, strip_slice(comp.generators[0].iter)) \
+                        and norm(_canon(fr, comp.elt)) == sha(comp.generators[0].target.id) and _ctext(fr, i.args[0]) == want_hash:
+                    return True
+        return None
+
+    def strip_slice(e: ast.AST) -> ast.AST:
+        e = strip_cast(e)
+        while isinstance(e, ast.Subscript) and isinstance(e.slice, ast.Slice) or (isinstance(e, ast.Call) and chain(e.func) in ("list", "tuple") and len(e.args) == 1):
+            e = strip_cast(e.value if isinstance(e, ast.Subscript) else e.args[0])
+        return e
+
+    sites = []          # (frame, node, verdict True/False/None, what)
+    for fr in frames:
+        for n in walk_no_nested(fr.fi.node):
+            if isinstance(n, ast.Call) and isinstance(n.func, ast.Attribute) and n.func.attr in ("remove", "pop", "popleft", "clear") and is_backlog(fr, n.func.value):
+                if n.func.attr == "remove" and len(n.args) == 1:
+                    sites.append((fr, n, elem_selected(fr, n.args[0], n), "removes an element"))
+                elif n.func.attr == "pop" and len(n.args) == 1:
+                    sites.append((fr, n, index_selected(fr, n.args[0], n), "removes by position"))
+                else:
+                    sites.append((fr, n, False, "removes by position"))
+            elif isinstance(n, ast.Delete):
+                for t in n.targets:
+                    if isinstance(t, ast.Subscript) and is_backlog(fr, t.value):
+                        sites.append((fr, n, None if isinstance(t.slice, ast.Slice) else index_selected(fr, t.slice, n), "deletes by position"))
+            elif isinstance(n, (ast.Assign, ast.AnnAssign, ast.AugAssign)):
+                targets = n.targets if isinstance(n, ast.Assign) else [n.target]
+                for t in targets:
+                    whole = (isinstance(t, ast.Attribute) and t.attr == "challenges" and not (isinstance(t.value, ast.Name) and t.value.id == "self" and fr.caller is None)) or \
+                        (isinstance(t, ast.Subscript) and isinstance(t.slice, ast.Slice) and is_backlog(fr, t.value))
+                    if not whole or n.value is None or isinstance(n, ast.AugAssign):
+                        continue
+                    facts = _elem_facts(ctx, fr, n.value)
+                    keeps_others = any(f.op == "eq" and not f.pos and f.right is not None and {norm(f.left), norm(f.right)} == {sha(_V), want_hash} for f in facts)
+                    sites.append((fr, n, True if keeps_others else None, "rebuilds the backlog"))
+    ctx.anchor(sites, "on_challenge_response drops the answered challenge from ProvingAttestationCache.challenges")
+    for fr, n, verdict, what in sites:
+        if verdict is None:
+            raise AnalysisError(f"undecided: {fr.fi.qualname}: `{norm(n)[:70]}` {what} of the challenge backlog and it is not clear which element")
+        ctx.check(verdict, "response-consumed", fi, n, "the challenge dropped from the backlog is the one whose hash the response carries",
+                  f"{fr.fi.qualname}: `{norm(n)[:70]}` {what} of ProvingAttestationCache.challenges that was not selected by sha1(c).digest() == {want_hash}: "
+                  "answers are datagrams and may overtake each other, so the challenge that was actually answered can stay in the backlog (and another, unanswered one is "
+                  "dropped); the answered challenge is then sent again and its second answer is counted again in the relativity map - the reconstructed bit-pair profile "
+                  "exceeds the profile of the true value, which scores 0 for an honest prover")
+
+
+def _run_rules(ctx: Ctx) -> None:
+    for rule in (rule_protocol_shape, rule_range_binding, rule_response_consumed, rule_ring_laws, rule_intpow, rule_codec):
+        try:
+            rule(ctx)
+        except (AnalysisError, KeyboardInterrupt):
+            raise
+        except (_NoModel, _Raised) as e:
+            raise AnalysisError(f"undecided: {rule.__name__}: model evaluation stopped at {e}") from None
+        except Exception as e:  # noqa: BLE001 - syntax the rule's reading does not cope with is undecided, not a crash and not a verdict
+            import traceback
+            where = traceback.extract_tb(e.__traceback__)[-1]
+            raise AnalysisError(f"undecided: {rule.__name__}: construct outside the rule's reading ({type(e).__name__}: {str(e)[:80]} at c18.py:{where.lineno})") from None
+
+
+def _raw_repo(repo):
+    """
+    The same tree without the load-time normalisation (the code exactly as written), or None when the normaliser did not rewrite
+    anything.  The rules of this module expand locals, follow new helpers and fold constants themselves, so they can read the
+    code as written; the second reading is used only to confirm or drop what the first reading reported.
+    """
+    import os
+
+    from ..model import Repo
+    if not getattr(repo, "renamed_locals", 0) or not getattr(repo, "recover_names", False):
+        return None
+    old = os.environ.get("SA_NO_NAME_RECOVERY")
+    os.environ["SA_NO_NAME_RECOVERY"] = "1"
+    try:
+        return Repo(repo.root, overrides=repo.overrides)
+    except AnalysisError:
+        return None
+    finally:
+        if old is None:
+            os.environ.pop("SA_NO_NAME_RECOVERY", None)
+        else:
+            os.environ["SA_NO_NAME_RECOVERY"] = old
 
 
 def run(ctx: Ctx) -> None:
-    rule_protocol_shape(ctx)
-    rule_range_binding(ctx)
-    rule_response_consumed(ctx)
-    rule_ring_laws(ctx)
-    rule_intpow(ctx)
-    rule_codec(ctx)
+    err = None
+    try:
+        _run_rules(ctx)
+    except AnalysisError as e:
+        err = e
+    if err is not None or ctx.findings:
+        # A violation / an undecided construct on the normalised tree of a CHANGED repository is read a second time on the code as
+        # written: the normalised function and the written one are the same program, so a reading that passes on either is a verdict
+        # about the code (a normalisation step that merged two inlined copies of a helper once produced a violation the code does not have).
+        raw = _raw_repo(ctx.repo)
+        if raw is not None:
+            ctx2 = Ctx(ctx.prop, raw, ctx.tier)
+            try:
+                _run_rules(ctx2)
+                clean = not ctx2.findings
+            except AnalysisError:
+                clean = False
+            if clean:
+                for k in ("instances", "findings", "notes", "assumptions", "floors", "functions", "extra", "obligations", "discharged"):
+                    setattr(ctx, k, getattr(ctx2, k))
+                ctx.note("verdict from the reading of the code as written (the normalised reading reported "
+                         + (str(err)[:120] if err is not None else "a violation") + ")")
+                err = None
+        _use(ctx)
+    if err is not None:
+        raise err
     ctx.extra["obligations"] = ctx.obligations
     ctx.extra["discharged"] = ctx.discharged
     ctx.assume("NOT decided: completeness/soundness of the exact-match and range proofs, Boneh encode/decode, honesty checks in on_challenge_response - number theory over run-time keys and randomness")
@@ -1485,4 +3936,28 @@ WITNESSES = [
      "new": "            proving_cache = cache.proving_cache\n            if payload.challenge_hash in proving_cache.hashed_challenges:\n                self.request_cache.pop(*HashCache.id_from_hash(\"proving-hash\", payload.challenge_hash))\n"},
     {"name": "pending challenge is never popped", "file": "ipv8/attestation/wallet/community.py", "rule": "response-consumed",
      "old": "            self.request_cache.pop(*HashCache.id_from_hash(\"proving-hash\", payload.challenge_hash))\n", "new": ""},
+    {"name": "answered challenge is dropped from the backlog by position, not by hash", "file": "ipv8/attestation/wallet/community.py", "rule": "response-consumed",
+     "old": "                for challenge in proving_cache.challenges[:]:\n                    if sha1(challenge).digest() == payload.challenge_hash:\n"
+            "                        proving_cache.challenges.remove(challenge)\n                        break\n",
+     "new": "                challenge = proving_cache.challenges.pop(0)\n"},
+    {"name": "backlog entry removed without comparing its hash", "file": "ipv8/attestation/wallet/community.py", "rule": "response-consumed",
+     "old": "                    if sha1(challenge).digest() == payload.challenge_hash:\n                        proving_cache.challenges.remove(challenge)\n",
+     "new": "                    if challenge:\n                        proving_cache.challenges.remove(challenge)\n"},
+    {"name": "answers that are not a bit-pair sum are not counted", "file": "ipv8/attestation/wallet/bonehexact/algorithm.py", "rule": "protocol-shape",
+     "old": "        process_challenge_response(aggregate, unpacked)\n        return aggregate\n",
+     "new": "        if unpacked in (0, 1, 2):\n            process_challenge_response(aggregate, unpacked)\n        return aggregate\n"},
+    {"name": "an answer is counted twice", "file": "ipv8/attestation/wallet/bonehexact/attestation.py", "rule": "protocol-shape",
+     "old": "    relativity_map[response] += 1\n", "new": "    relativity_map[response] += 2\n"},
+    {"name": "range certainty starts from True", "file": "ipv8/attestation/wallet/pengbaorange/algorithm.py", "rule": "protocol-shape",
+     "old": "        in_range = len(aggregate) > 1\n", "new": "        in_range = True\n"},
+    {"name": "range certainty accepts when any response verified", "file": "ipv8/attestation/wallet/pengbaorange/algorithm.py", "rule": "protocol-shape",
+     "old": "        in_range = len(aggregate) > 1\n        for k, v in aggregate.items():\n            if k != \"attestation\":\n                in_range &= v\n",
+     "new": "        in_range = any(v for k, v in aggregate.items() if k != \"attestation\")\n"},
+    {"name": "range certainty folds the attestation entry into the verdict", "file": "ipv8/attestation/wallet/pengbaorange/algorithm.py", "rule": "protocol-shape",
+     "old": "            if k != \"attestation\":\n                in_range &= v\n", "new": "            in_range &= bool(v)\n"},
+    {"name": "request cache is looked up for every outstanding global time", "file": "ipv8/attestation/wallet/community.py", "rule": "protocol-shape",
+     "old": "                    for allowed_glob in self.allowed_attestations.get(peer.mid, [])\n                    if allowed_glob == str(dist.global_time).encode()]\n",
+     "new": "                    for allowed_glob in self.allowed_attestations.get(peer.mid, [])]\n"},
+    {"name": "request cache is selected by the local clock instead of the echoed global time", "file": "ipv8/attestation/wallet/community.py", "rule": "protocol-shape",
+     "old": "                    if allowed_glob == str(dist.global_time).encode()]\n", "new": "                    if allowed_glob == str(self.global_time).encode()]\n"},
 ]
